@@ -49,6 +49,43 @@ structure Inv (s : State) : Prop where
   chNone : s.chCreated = true → s.ch ≠ .none
   nopanic : ∀ t, isPanic (s.pc t) = false
 
+/-- a third of the conjuncts of `Inv` (the preservation proofs are split so that no declaration is slow) -/
+structure InvA (s : State) : Prop where
+  mutex1 : ∀ t, holds (s.pc t) = true → s.mu = some t
+  mutex2 : ∀ t, s.mu = some t → holds (s.pc t) = true
+  status : s.errSet = true → s.chCreated = true
+  uniq : ∀ t u, won (s.pc t) = true → won (s.pc u) = true → t = u
+  past : ∀ t, pastStore (s.pc t) = true → s.errSet = true
+  pre : ∀ t, preStore (s.pc t) = true → s.errSet = false
+  werr : ∀ t e, wErr (s.pc t) = some e → s.err = some e
+  errW : s.errSet = true → s.err ≠ none
+  knows : ∀ t, knowsSet (s.pc t) = true → s.errSet = true
+
+/-- a third of the conjuncts of `Inv` (the preservation proofs are split so that no declaration is slow) -/
+structure InvB (s : State) : Prop where
+  obs : ∀ t x, obsErr (s.pc t) = some x → x = s.err
+  chan : ∀ t c, chanOf (s.pc t) = some c → c = s.ch ∧ s.chCreated = true
+  kch : ∀ t, knowsCh (s.pc t) = true → s.chCreated = true
+  crA : ∀ t b, crOf (s.pc t) = some b → s.chCreated = b
+  sent : ∀ t, sentSt (s.pc t) = true → s.ch = .sentinel
+  openA : s.chCreated = true → s.errSet = false → chOpenFresh s.closes s.ch = true
+  esA : ∀ t b, esOf (s.pc t) = some b → b = s.errSet ∧ s.chCreated = false
+  gst : ∀ t, isGStore (s.pc t) = true → chOpenFresh s.closes s.ch = true
+
+/-- a third of the conjuncts of `Inv` (the preservation proofs are split so that no declaration is slow) -/
+structure InvC (s : State) : Prop where
+  closing : ∀ t, isClosing (s.pc t) = true → chOpenFresh s.closes s.ch = true
+  cl1 : ∀ c, s.closes c ≤ 1
+  cl2 : ∀ c, 0 < s.closes c → s.errSet = true ∧ s.ch = .fresh c
+  sc : s.sentCloses = 0
+  quiet1 : s.errSet = true → s.isClosed s.ch = false → s.mu ≠ none
+  quiet2 : ∀ t, s.errSet = true → s.isClosed s.ch = false → s.mu = some t → isClosing (s.pc t) = true
+  chNone : s.chCreated = true → s.ch ≠ .none
+  nopanic : ∀ t, isPanic (s.pc t) = false
+
+theorem Inv.ofParts {s : State} (a : InvA s) (b : InvB s) (c : InvC s) : Inv s :=
+  ⟨a.mutex1, a.mutex2, a.status, a.uniq, a.past, a.pre, a.werr, a.errW, a.knows, b.obs, b.chan, b.kch, b.crA, b.sent, b.openA, b.esA, b.gst, c.closing, c.cl1, c.cl2, c.sc, c.quiet1, c.quiet2, c.chNone, c.nopanic⟩
+
 theorem inv_init : Inv init := by
   constructor <;> simp [init, holds, won, preStore, pastStore, wErr, knowsSet, obsErr, chanOf, knowsCh, crOf,
     sentSt, esOf, isGStore, isClosing, isPanic, chOpenFresh]
@@ -94,15 +131,15 @@ macro "sig_step_tac" : tactic => `(tactic| (
   intro s' hs
   unfold step at hs
   simp only [*] at hs
+  try simp only [Bool.false_eq_true, ↓reduceIte] at hs
   try unfold closeCh at hs
   repeat' split at hs
   all_goals (try (simp only [Option.some.injEq, reduceCtorEq] at hs))
   all_goals (try subst hs)
   all_goals sig_inv_case))
 
-set_option maxHeartbeats 1000000 in
-theorem step_start (s : State) (t : Tid) (c : _) (h : Inv s) (hp : s.pc t = .start c) :
-    ∀ s', step s t = some s' → Inv s' := by
+theorem step_start_set_A (s : State) (t : Tid) (e : Val) (h : Inv s) (hp : s.pc t = .start (.set e)) :
+    ∀ s', step s t = some s' → InvA s' := by
   have a_mutex1 := h.mutex1 t
   have a_mutex2 := h.mutex2 t
   have a_uniq := h.uniq t
@@ -122,10 +159,544 @@ theorem step_start (s : State) (t : Tid) (c : _) (h : Inv s) (hp : s.pc t = .sta
   have a_nopanic := h.nopanic t
   simp only [hp, holds, won, preStore, pastStore, wErr, knowsSet, obsErr, chanOf, knowsCh, crOf, isPanic, sentSt, isClosing, isGStore, esOf] at a_mutex1 a_mutex2 a_uniq a_past a_pre a_werr a_knows a_obs a_chan a_kch a_crA a_sent a_esA a_gst a_closing a_quiet2 a_nopanic
   obtain ⟨h1, h2, h3, h4, h5, h6, h7, h8, h9, h10, h11, h12, h13, h14, h15, h16, h17, h18, h19, h20, h21, h22, h23, h24, h25⟩ := h
-  cases c <;> sig_step_tac
+  sig_step_tac
+
+theorem step_start_set_B (s : State) (t : Tid) (e : Val) (h : Inv s) (hp : s.pc t = .start (.set e)) :
+    ∀ s', step s t = some s' → InvB s' := by
+  have a_mutex1 := h.mutex1 t
+  have a_mutex2 := h.mutex2 t
+  have a_uniq := h.uniq t
+  have a_past := h.past t
+  have a_pre := h.pre t
+  have a_werr := h.werr t
+  have a_knows := h.knows t
+  have a_obs := h.obs t
+  have a_chan := h.chan t
+  have a_kch := h.kch t
+  have a_crA := h.crA t
+  have a_sent := h.sent t
+  have a_esA := h.esA t
+  have a_gst := h.gst t
+  have a_closing := h.closing t
+  have a_quiet2 := h.quiet2 t
+  have a_nopanic := h.nopanic t
+  simp only [hp, holds, won, preStore, pastStore, wErr, knowsSet, obsErr, chanOf, knowsCh, crOf, isPanic, sentSt, isClosing, isGStore, esOf] at a_mutex1 a_mutex2 a_uniq a_past a_pre a_werr a_knows a_obs a_chan a_kch a_crA a_sent a_esA a_gst a_closing a_quiet2 a_nopanic
+  obtain ⟨h1, h2, h3, h4, h5, h6, h7, h8, h9, h10, h11, h12, h13, h14, h15, h16, h17, h18, h19, h20, h21, h22, h23, h24, h25⟩ := h
+  sig_step_tac
+
+theorem step_start_set_C (s : State) (t : Tid) (e : Val) (h : Inv s) (hp : s.pc t = .start (.set e)) :
+    ∀ s', step s t = some s' → InvC s' := by
+  have a_mutex1 := h.mutex1 t
+  have a_mutex2 := h.mutex2 t
+  have a_uniq := h.uniq t
+  have a_past := h.past t
+  have a_pre := h.pre t
+  have a_werr := h.werr t
+  have a_knows := h.knows t
+  have a_obs := h.obs t
+  have a_chan := h.chan t
+  have a_kch := h.kch t
+  have a_crA := h.crA t
+  have a_sent := h.sent t
+  have a_esA := h.esA t
+  have a_gst := h.gst t
+  have a_closing := h.closing t
+  have a_quiet2 := h.quiet2 t
+  have a_nopanic := h.nopanic t
+  simp only [hp, holds, won, preStore, pastStore, wErr, knowsSet, obsErr, chanOf, knowsCh, crOf, isPanic, sentSt, isClosing, isGStore, esOf] at a_mutex1 a_mutex2 a_uniq a_past a_pre a_werr a_knows a_obs a_chan a_kch a_crA a_sent a_esA a_gst a_closing a_quiet2 a_nopanic
+  obtain ⟨h1, h2, h3, h4, h5, h6, h7, h8, h9, h10, h11, h12, h13, h14, h15, h16, h17, h18, h19, h20, h21, h22, h23, h24, h25⟩ := h
+  sig_step_tac
+
+theorem step_start_set (s : State) (t : Tid) (e : Val) (h : Inv s) (hp : s.pc t = .start (.set e)) :
+    ∀ s', step s t = some s' → Inv s' := fun s' hs =>
+  Inv.ofParts (step_start_set_A s t e h hp s' hs) (step_start_set_B s t e h hp s' hs) (step_start_set_C s t e h hp s' hs)
+
+theorem step_start_signal_A (s : State) (t : Tid)  (h : Inv s) (hp : s.pc t = .start .signal) :
+    ∀ s', step s t = some s' → InvA s' := by
+  have a_mutex1 := h.mutex1 t
+  have a_mutex2 := h.mutex2 t
+  have a_uniq := h.uniq t
+  have a_past := h.past t
+  have a_pre := h.pre t
+  have a_werr := h.werr t
+  have a_knows := h.knows t
+  have a_obs := h.obs t
+  have a_chan := h.chan t
+  have a_kch := h.kch t
+  have a_crA := h.crA t
+  have a_sent := h.sent t
+  have a_esA := h.esA t
+  have a_gst := h.gst t
+  have a_closing := h.closing t
+  have a_quiet2 := h.quiet2 t
+  have a_nopanic := h.nopanic t
+  simp only [hp, holds, won, preStore, pastStore, wErr, knowsSet, obsErr, chanOf, knowsCh, crOf, isPanic, sentSt, isClosing, isGStore, esOf] at a_mutex1 a_mutex2 a_uniq a_past a_pre a_werr a_knows a_obs a_chan a_kch a_crA a_sent a_esA a_gst a_closing a_quiet2 a_nopanic
+  obtain ⟨h1, h2, h3, h4, h5, h6, h7, h8, h9, h10, h11, h12, h13, h14, h15, h16, h17, h18, h19, h20, h21, h22, h23, h24, h25⟩ := h
+  sig_step_tac
+
+theorem step_start_signal_B (s : State) (t : Tid)  (h : Inv s) (hp : s.pc t = .start .signal) :
+    ∀ s', step s t = some s' → InvB s' := by
+  have a_mutex1 := h.mutex1 t
+  have a_mutex2 := h.mutex2 t
+  have a_uniq := h.uniq t
+  have a_past := h.past t
+  have a_pre := h.pre t
+  have a_werr := h.werr t
+  have a_knows := h.knows t
+  have a_obs := h.obs t
+  have a_chan := h.chan t
+  have a_kch := h.kch t
+  have a_crA := h.crA t
+  have a_sent := h.sent t
+  have a_esA := h.esA t
+  have a_gst := h.gst t
+  have a_closing := h.closing t
+  have a_quiet2 := h.quiet2 t
+  have a_nopanic := h.nopanic t
+  simp only [hp, holds, won, preStore, pastStore, wErr, knowsSet, obsErr, chanOf, knowsCh, crOf, isPanic, sentSt, isClosing, isGStore, esOf] at a_mutex1 a_mutex2 a_uniq a_past a_pre a_werr a_knows a_obs a_chan a_kch a_crA a_sent a_esA a_gst a_closing a_quiet2 a_nopanic
+  obtain ⟨h1, h2, h3, h4, h5, h6, h7, h8, h9, h10, h11, h12, h13, h14, h15, h16, h17, h18, h19, h20, h21, h22, h23, h24, h25⟩ := h
+  sig_step_tac
+
+theorem step_start_signal_C (s : State) (t : Tid)  (h : Inv s) (hp : s.pc t = .start .signal) :
+    ∀ s', step s t = some s' → InvC s' := by
+  have a_mutex1 := h.mutex1 t
+  have a_mutex2 := h.mutex2 t
+  have a_uniq := h.uniq t
+  have a_past := h.past t
+  have a_pre := h.pre t
+  have a_werr := h.werr t
+  have a_knows := h.knows t
+  have a_obs := h.obs t
+  have a_chan := h.chan t
+  have a_kch := h.kch t
+  have a_crA := h.crA t
+  have a_sent := h.sent t
+  have a_esA := h.esA t
+  have a_gst := h.gst t
+  have a_closing := h.closing t
+  have a_quiet2 := h.quiet2 t
+  have a_nopanic := h.nopanic t
+  simp only [hp, holds, won, preStore, pastStore, wErr, knowsSet, obsErr, chanOf, knowsCh, crOf, isPanic, sentSt, isClosing, isGStore, esOf] at a_mutex1 a_mutex2 a_uniq a_past a_pre a_werr a_knows a_obs a_chan a_kch a_crA a_sent a_esA a_gst a_closing a_quiet2 a_nopanic
+  obtain ⟨h1, h2, h3, h4, h5, h6, h7, h8, h9, h10, h11, h12, h13, h14, h15, h16, h17, h18, h19, h20, h21, h22, h23, h24, h25⟩ := h
+  sig_step_tac
+
+theorem step_start_signal (s : State) (t : Tid)  (h : Inv s) (hp : s.pc t = .start .signal) :
+    ∀ s', step s t = some s' → Inv s' := fun s' hs =>
+  Inv.ofParts (step_start_signal_A s t  h hp s' hs) (step_start_signal_B s t  h hp s' hs) (step_start_signal_C s t  h hp s' hs)
+
+theorem step_start_wait_A (s : State) (t : Tid)  (h : Inv s) (hp : s.pc t = .start .wait) :
+    ∀ s', step s t = some s' → InvA s' := by
+  have a_mutex1 := h.mutex1 t
+  have a_mutex2 := h.mutex2 t
+  have a_uniq := h.uniq t
+  have a_past := h.past t
+  have a_pre := h.pre t
+  have a_werr := h.werr t
+  have a_knows := h.knows t
+  have a_obs := h.obs t
+  have a_chan := h.chan t
+  have a_kch := h.kch t
+  have a_crA := h.crA t
+  have a_sent := h.sent t
+  have a_esA := h.esA t
+  have a_gst := h.gst t
+  have a_closing := h.closing t
+  have a_quiet2 := h.quiet2 t
+  have a_nopanic := h.nopanic t
+  simp only [hp, holds, won, preStore, pastStore, wErr, knowsSet, obsErr, chanOf, knowsCh, crOf, isPanic, sentSt, isClosing, isGStore, esOf] at a_mutex1 a_mutex2 a_uniq a_past a_pre a_werr a_knows a_obs a_chan a_kch a_crA a_sent a_esA a_gst a_closing a_quiet2 a_nopanic
+  obtain ⟨h1, h2, h3, h4, h5, h6, h7, h8, h9, h10, h11, h12, h13, h14, h15, h16, h17, h18, h19, h20, h21, h22, h23, h24, h25⟩ := h
+  sig_step_tac
+
+theorem step_start_wait_B (s : State) (t : Tid)  (h : Inv s) (hp : s.pc t = .start .wait) :
+    ∀ s', step s t = some s' → InvB s' := by
+  have a_mutex1 := h.mutex1 t
+  have a_mutex2 := h.mutex2 t
+  have a_uniq := h.uniq t
+  have a_past := h.past t
+  have a_pre := h.pre t
+  have a_werr := h.werr t
+  have a_knows := h.knows t
+  have a_obs := h.obs t
+  have a_chan := h.chan t
+  have a_kch := h.kch t
+  have a_crA := h.crA t
+  have a_sent := h.sent t
+  have a_esA := h.esA t
+  have a_gst := h.gst t
+  have a_closing := h.closing t
+  have a_quiet2 := h.quiet2 t
+  have a_nopanic := h.nopanic t
+  simp only [hp, holds, won, preStore, pastStore, wErr, knowsSet, obsErr, chanOf, knowsCh, crOf, isPanic, sentSt, isClosing, isGStore, esOf] at a_mutex1 a_mutex2 a_uniq a_past a_pre a_werr a_knows a_obs a_chan a_kch a_crA a_sent a_esA a_gst a_closing a_quiet2 a_nopanic
+  obtain ⟨h1, h2, h3, h4, h5, h6, h7, h8, h9, h10, h11, h12, h13, h14, h15, h16, h17, h18, h19, h20, h21, h22, h23, h24, h25⟩ := h
+  sig_step_tac
+
+theorem step_start_wait_C (s : State) (t : Tid)  (h : Inv s) (hp : s.pc t = .start .wait) :
+    ∀ s', step s t = some s' → InvC s' := by
+  have a_mutex1 := h.mutex1 t
+  have a_mutex2 := h.mutex2 t
+  have a_uniq := h.uniq t
+  have a_past := h.past t
+  have a_pre := h.pre t
+  have a_werr := h.werr t
+  have a_knows := h.knows t
+  have a_obs := h.obs t
+  have a_chan := h.chan t
+  have a_kch := h.kch t
+  have a_crA := h.crA t
+  have a_sent := h.sent t
+  have a_esA := h.esA t
+  have a_gst := h.gst t
+  have a_closing := h.closing t
+  have a_quiet2 := h.quiet2 t
+  have a_nopanic := h.nopanic t
+  simp only [hp, holds, won, preStore, pastStore, wErr, knowsSet, obsErr, chanOf, knowsCh, crOf, isPanic, sentSt, isClosing, isGStore, esOf] at a_mutex1 a_mutex2 a_uniq a_past a_pre a_werr a_knows a_obs a_chan a_kch a_crA a_sent a_esA a_gst a_closing a_quiet2 a_nopanic
+  obtain ⟨h1, h2, h3, h4, h5, h6, h7, h8, h9, h10, h11, h12, h13, h14, h15, h16, h17, h18, h19, h20, h21, h22, h23, h24, h25⟩ := h
+  sig_step_tac
+
+theorem step_start_wait (s : State) (t : Tid)  (h : Inv s) (hp : s.pc t = .start .wait) :
+    ∀ s', step s t = some s' → Inv s' := fun s' hs =>
+  Inv.ofParts (step_start_wait_A s t  h hp s' hs) (step_start_wait_B s t  h hp s' hs) (step_start_wait_C s t  h hp s' hs)
+
+theorem step_start_get_A (s : State) (t : Tid)  (h : Inv s) (hp : s.pc t = .start .get) :
+    ∀ s', step s t = some s' → InvA s' := by
+  have a_mutex1 := h.mutex1 t
+  have a_mutex2 := h.mutex2 t
+  have a_uniq := h.uniq t
+  have a_past := h.past t
+  have a_pre := h.pre t
+  have a_werr := h.werr t
+  have a_knows := h.knows t
+  have a_obs := h.obs t
+  have a_chan := h.chan t
+  have a_kch := h.kch t
+  have a_crA := h.crA t
+  have a_sent := h.sent t
+  have a_esA := h.esA t
+  have a_gst := h.gst t
+  have a_closing := h.closing t
+  have a_quiet2 := h.quiet2 t
+  have a_nopanic := h.nopanic t
+  simp only [hp, holds, won, preStore, pastStore, wErr, knowsSet, obsErr, chanOf, knowsCh, crOf, isPanic, sentSt, isClosing, isGStore, esOf] at a_mutex1 a_mutex2 a_uniq a_past a_pre a_werr a_knows a_obs a_chan a_kch a_crA a_sent a_esA a_gst a_closing a_quiet2 a_nopanic
+  obtain ⟨h1, h2, h3, h4, h5, h6, h7, h8, h9, h10, h11, h12, h13, h14, h15, h16, h17, h18, h19, h20, h21, h22, h23, h24, h25⟩ := h
+  sig_step_tac
+
+theorem step_start_get_B (s : State) (t : Tid)  (h : Inv s) (hp : s.pc t = .start .get) :
+    ∀ s', step s t = some s' → InvB s' := by
+  have a_mutex1 := h.mutex1 t
+  have a_mutex2 := h.mutex2 t
+  have a_uniq := h.uniq t
+  have a_past := h.past t
+  have a_pre := h.pre t
+  have a_werr := h.werr t
+  have a_knows := h.knows t
+  have a_obs := h.obs t
+  have a_chan := h.chan t
+  have a_kch := h.kch t
+  have a_crA := h.crA t
+  have a_sent := h.sent t
+  have a_esA := h.esA t
+  have a_gst := h.gst t
+  have a_closing := h.closing t
+  have a_quiet2 := h.quiet2 t
+  have a_nopanic := h.nopanic t
+  simp only [hp, holds, won, preStore, pastStore, wErr, knowsSet, obsErr, chanOf, knowsCh, crOf, isPanic, sentSt, isClosing, isGStore, esOf] at a_mutex1 a_mutex2 a_uniq a_past a_pre a_werr a_knows a_obs a_chan a_kch a_crA a_sent a_esA a_gst a_closing a_quiet2 a_nopanic
+  obtain ⟨h1, h2, h3, h4, h5, h6, h7, h8, h9, h10, h11, h12, h13, h14, h15, h16, h17, h18, h19, h20, h21, h22, h23, h24, h25⟩ := h
+  sig_step_tac
+
+theorem step_start_get_C (s : State) (t : Tid)  (h : Inv s) (hp : s.pc t = .start .get) :
+    ∀ s', step s t = some s' → InvC s' := by
+  have a_mutex1 := h.mutex1 t
+  have a_mutex2 := h.mutex2 t
+  have a_uniq := h.uniq t
+  have a_past := h.past t
+  have a_pre := h.pre t
+  have a_werr := h.werr t
+  have a_knows := h.knows t
+  have a_obs := h.obs t
+  have a_chan := h.chan t
+  have a_kch := h.kch t
+  have a_crA := h.crA t
+  have a_sent := h.sent t
+  have a_esA := h.esA t
+  have a_gst := h.gst t
+  have a_closing := h.closing t
+  have a_quiet2 := h.quiet2 t
+  have a_nopanic := h.nopanic t
+  simp only [hp, holds, won, preStore, pastStore, wErr, knowsSet, obsErr, chanOf, knowsCh, crOf, isPanic, sentSt, isClosing, isGStore, esOf] at a_mutex1 a_mutex2 a_uniq a_past a_pre a_werr a_knows a_obs a_chan a_kch a_crA a_sent a_esA a_gst a_closing a_quiet2 a_nopanic
+  obtain ⟨h1, h2, h3, h4, h5, h6, h7, h8, h9, h10, h11, h12, h13, h14, h15, h16, h17, h18, h19, h20, h21, h22, h23, h24, h25⟩ := h
+  sig_step_tac
+
+theorem step_start_get (s : State) (t : Tid)  (h : Inv s) (hp : s.pc t = .start .get) :
+    ∀ s', step s t = some s' → Inv s' := fun s' hs =>
+  Inv.ofParts (step_start_get_A s t  h hp s' hs) (step_start_get_B s t  h hp s' hs) (step_start_get_C s t  h hp s' hs)
+
+theorem step_start_err_A (s : State) (t : Tid)  (h : Inv s) (hp : s.pc t = .start .err) :
+    ∀ s', step s t = some s' → InvA s' := by
+  have a_mutex1 := h.mutex1 t
+  have a_mutex2 := h.mutex2 t
+  have a_uniq := h.uniq t
+  have a_past := h.past t
+  have a_pre := h.pre t
+  have a_werr := h.werr t
+  have a_knows := h.knows t
+  have a_obs := h.obs t
+  have a_chan := h.chan t
+  have a_kch := h.kch t
+  have a_crA := h.crA t
+  have a_sent := h.sent t
+  have a_esA := h.esA t
+  have a_gst := h.gst t
+  have a_closing := h.closing t
+  have a_quiet2 := h.quiet2 t
+  have a_nopanic := h.nopanic t
+  simp only [hp, holds, won, preStore, pastStore, wErr, knowsSet, obsErr, chanOf, knowsCh, crOf, isPanic, sentSt, isClosing, isGStore, esOf] at a_mutex1 a_mutex2 a_uniq a_past a_pre a_werr a_knows a_obs a_chan a_kch a_crA a_sent a_esA a_gst a_closing a_quiet2 a_nopanic
+  obtain ⟨h1, h2, h3, h4, h5, h6, h7, h8, h9, h10, h11, h12, h13, h14, h15, h16, h17, h18, h19, h20, h21, h22, h23, h24, h25⟩ := h
+  sig_step_tac
+
+theorem step_start_err_B (s : State) (t : Tid)  (h : Inv s) (hp : s.pc t = .start .err) :
+    ∀ s', step s t = some s' → InvB s' := by
+  have a_mutex1 := h.mutex1 t
+  have a_mutex2 := h.mutex2 t
+  have a_uniq := h.uniq t
+  have a_past := h.past t
+  have a_pre := h.pre t
+  have a_werr := h.werr t
+  have a_knows := h.knows t
+  have a_obs := h.obs t
+  have a_chan := h.chan t
+  have a_kch := h.kch t
+  have a_crA := h.crA t
+  have a_sent := h.sent t
+  have a_esA := h.esA t
+  have a_gst := h.gst t
+  have a_closing := h.closing t
+  have a_quiet2 := h.quiet2 t
+  have a_nopanic := h.nopanic t
+  simp only [hp, holds, won, preStore, pastStore, wErr, knowsSet, obsErr, chanOf, knowsCh, crOf, isPanic, sentSt, isClosing, isGStore, esOf] at a_mutex1 a_mutex2 a_uniq a_past a_pre a_werr a_knows a_obs a_chan a_kch a_crA a_sent a_esA a_gst a_closing a_quiet2 a_nopanic
+  obtain ⟨h1, h2, h3, h4, h5, h6, h7, h8, h9, h10, h11, h12, h13, h14, h15, h16, h17, h18, h19, h20, h21, h22, h23, h24, h25⟩ := h
+  sig_step_tac
+
+theorem step_start_err_C (s : State) (t : Tid)  (h : Inv s) (hp : s.pc t = .start .err) :
+    ∀ s', step s t = some s' → InvC s' := by
+  have a_mutex1 := h.mutex1 t
+  have a_mutex2 := h.mutex2 t
+  have a_uniq := h.uniq t
+  have a_past := h.past t
+  have a_pre := h.pre t
+  have a_werr := h.werr t
+  have a_knows := h.knows t
+  have a_obs := h.obs t
+  have a_chan := h.chan t
+  have a_kch := h.kch t
+  have a_crA := h.crA t
+  have a_sent := h.sent t
+  have a_esA := h.esA t
+  have a_gst := h.gst t
+  have a_closing := h.closing t
+  have a_quiet2 := h.quiet2 t
+  have a_nopanic := h.nopanic t
+  simp only [hp, holds, won, preStore, pastStore, wErr, knowsSet, obsErr, chanOf, knowsCh, crOf, isPanic, sentSt, isClosing, isGStore, esOf] at a_mutex1 a_mutex2 a_uniq a_past a_pre a_werr a_knows a_obs a_chan a_kch a_crA a_sent a_esA a_gst a_closing a_quiet2 a_nopanic
+  obtain ⟨h1, h2, h3, h4, h5, h6, h7, h8, h9, h10, h11, h12, h13, h14, h15, h16, h17, h18, h19, h20, h21, h22, h23, h24, h25⟩ := h
+  sig_step_tac
+
+theorem step_start_err (s : State) (t : Tid)  (h : Inv s) (hp : s.pc t = .start .err) :
+    ∀ s', step s t = some s' → Inv s' := fun s' hs =>
+  Inv.ofParts (step_start_err_A s t  h hp s' hs) (step_start_err_B s t  h hp s' hs) (step_start_err_C s t  h hp s' hs)
+
+theorem step_start_isSet_A (s : State) (t : Tid)  (h : Inv s) (hp : s.pc t = .start .isSet) :
+    ∀ s', step s t = some s' → InvA s' := by
+  have a_mutex1 := h.mutex1 t
+  have a_mutex2 := h.mutex2 t
+  have a_uniq := h.uniq t
+  have a_past := h.past t
+  have a_pre := h.pre t
+  have a_werr := h.werr t
+  have a_knows := h.knows t
+  have a_obs := h.obs t
+  have a_chan := h.chan t
+  have a_kch := h.kch t
+  have a_crA := h.crA t
+  have a_sent := h.sent t
+  have a_esA := h.esA t
+  have a_gst := h.gst t
+  have a_closing := h.closing t
+  have a_quiet2 := h.quiet2 t
+  have a_nopanic := h.nopanic t
+  simp only [hp, holds, won, preStore, pastStore, wErr, knowsSet, obsErr, chanOf, knowsCh, crOf, isPanic, sentSt, isClosing, isGStore, esOf] at a_mutex1 a_mutex2 a_uniq a_past a_pre a_werr a_knows a_obs a_chan a_kch a_crA a_sent a_esA a_gst a_closing a_quiet2 a_nopanic
+  obtain ⟨h1, h2, h3, h4, h5, h6, h7, h8, h9, h10, h11, h12, h13, h14, h15, h16, h17, h18, h19, h20, h21, h22, h23, h24, h25⟩ := h
+  sig_step_tac
+
+theorem step_start_isSet_B (s : State) (t : Tid)  (h : Inv s) (hp : s.pc t = .start .isSet) :
+    ∀ s', step s t = some s' → InvB s' := by
+  have a_mutex1 := h.mutex1 t
+  have a_mutex2 := h.mutex2 t
+  have a_uniq := h.uniq t
+  have a_past := h.past t
+  have a_pre := h.pre t
+  have a_werr := h.werr t
+  have a_knows := h.knows t
+  have a_obs := h.obs t
+  have a_chan := h.chan t
+  have a_kch := h.kch t
+  have a_crA := h.crA t
+  have a_sent := h.sent t
+  have a_esA := h.esA t
+  have a_gst := h.gst t
+  have a_closing := h.closing t
+  have a_quiet2 := h.quiet2 t
+  have a_nopanic := h.nopanic t
+  simp only [hp, holds, won, preStore, pastStore, wErr, knowsSet, obsErr, chanOf, knowsCh, crOf, isPanic, sentSt, isClosing, isGStore, esOf] at a_mutex1 a_mutex2 a_uniq a_past a_pre a_werr a_knows a_obs a_chan a_kch a_crA a_sent a_esA a_gst a_closing a_quiet2 a_nopanic
+  obtain ⟨h1, h2, h3, h4, h5, h6, h7, h8, h9, h10, h11, h12, h13, h14, h15, h16, h17, h18, h19, h20, h21, h22, h23, h24, h25⟩ := h
+  sig_step_tac
+
+theorem step_start_isSet_C (s : State) (t : Tid)  (h : Inv s) (hp : s.pc t = .start .isSet) :
+    ∀ s', step s t = some s' → InvC s' := by
+  have a_mutex1 := h.mutex1 t
+  have a_mutex2 := h.mutex2 t
+  have a_uniq := h.uniq t
+  have a_past := h.past t
+  have a_pre := h.pre t
+  have a_werr := h.werr t
+  have a_knows := h.knows t
+  have a_obs := h.obs t
+  have a_chan := h.chan t
+  have a_kch := h.kch t
+  have a_crA := h.crA t
+  have a_sent := h.sent t
+  have a_esA := h.esA t
+  have a_gst := h.gst t
+  have a_closing := h.closing t
+  have a_quiet2 := h.quiet2 t
+  have a_nopanic := h.nopanic t
+  simp only [hp, holds, won, preStore, pastStore, wErr, knowsSet, obsErr, chanOf, knowsCh, crOf, isPanic, sentSt, isClosing, isGStore, esOf] at a_mutex1 a_mutex2 a_uniq a_past a_pre a_werr a_knows a_obs a_chan a_kch a_crA a_sent a_esA a_gst a_closing a_quiet2 a_nopanic
+  obtain ⟨h1, h2, h3, h4, h5, h6, h7, h8, h9, h10, h11, h12, h13, h14, h15, h16, h17, h18, h19, h20, h21, h22, h23, h24, h25⟩ := h
+  sig_step_tac
+
+theorem step_start_isSet (s : State) (t : Tid)  (h : Inv s) (hp : s.pc t = .start .isSet) :
+    ∀ s', step s t = some s' → Inv s' := fun s' hs =>
+  Inv.ofParts (step_start_isSet_A s t  h hp s' hs) (step_start_isSet_B s t  h hp s' hs) (step_start_isSet_C s t  h hp s' hs)
+
+theorem step_sLock_A (s : State) (t : Tid) (e : _) (h : Inv s) (hp : s.pc t = .sLock e) :
+    ∀ s', step s t = some s' → InvA s' := by
+  have a_mutex1 := h.mutex1 t
+  have a_mutex2 := h.mutex2 t
+  have a_uniq := h.uniq t
+  have a_past := h.past t
+  have a_pre := h.pre t
+  have a_werr := h.werr t
+  have a_knows := h.knows t
+  have a_obs := h.obs t
+  have a_chan := h.chan t
+  have a_kch := h.kch t
+  have a_crA := h.crA t
+  have a_sent := h.sent t
+  have a_esA := h.esA t
+  have a_gst := h.gst t
+  have a_closing := h.closing t
+  have a_quiet2 := h.quiet2 t
+  have a_nopanic := h.nopanic t
+  simp only [hp, holds, won, preStore, pastStore, wErr, knowsSet, obsErr, chanOf, knowsCh, crOf, isPanic, sentSt, isClosing, isGStore, esOf] at a_mutex1 a_mutex2 a_uniq a_past a_pre a_werr a_knows a_obs a_chan a_kch a_crA a_sent a_esA a_gst a_closing a_quiet2 a_nopanic
+  obtain ⟨h1, h2, h3, h4, h5, h6, h7, h8, h9, h10, h11, h12, h13, h14, h15, h16, h17, h18, h19, h20, h21, h22, h23, h24, h25⟩ := h
+  sig_step_tac
+
+theorem step_sLock_B (s : State) (t : Tid) (e : _) (h : Inv s) (hp : s.pc t = .sLock e) :
+    ∀ s', step s t = some s' → InvB s' := by
+  have a_mutex1 := h.mutex1 t
+  have a_mutex2 := h.mutex2 t
+  have a_uniq := h.uniq t
+  have a_past := h.past t
+  have a_pre := h.pre t
+  have a_werr := h.werr t
+  have a_knows := h.knows t
+  have a_obs := h.obs t
+  have a_chan := h.chan t
+  have a_kch := h.kch t
+  have a_crA := h.crA t
+  have a_sent := h.sent t
+  have a_esA := h.esA t
+  have a_gst := h.gst t
+  have a_closing := h.closing t
+  have a_quiet2 := h.quiet2 t
+  have a_nopanic := h.nopanic t
+  simp only [hp, holds, won, preStore, pastStore, wErr, knowsSet, obsErr, chanOf, knowsCh, crOf, isPanic, sentSt, isClosing, isGStore, esOf] at a_mutex1 a_mutex2 a_uniq a_past a_pre a_werr a_knows a_obs a_chan a_kch a_crA a_sent a_esA a_gst a_closing a_quiet2 a_nopanic
+  obtain ⟨h1, h2, h3, h4, h5, h6, h7, h8, h9, h10, h11, h12, h13, h14, h15, h16, h17, h18, h19, h20, h21, h22, h23, h24, h25⟩ := h
+  sig_step_tac
+
+theorem step_sLock_C (s : State) (t : Tid) (e : _) (h : Inv s) (hp : s.pc t = .sLock e) :
+    ∀ s', step s t = some s' → InvC s' := by
+  have a_mutex1 := h.mutex1 t
+  have a_mutex2 := h.mutex2 t
+  have a_uniq := h.uniq t
+  have a_past := h.past t
+  have a_pre := h.pre t
+  have a_werr := h.werr t
+  have a_knows := h.knows t
+  have a_obs := h.obs t
+  have a_chan := h.chan t
+  have a_kch := h.kch t
+  have a_crA := h.crA t
+  have a_sent := h.sent t
+  have a_esA := h.esA t
+  have a_gst := h.gst t
+  have a_closing := h.closing t
+  have a_quiet2 := h.quiet2 t
+  have a_nopanic := h.nopanic t
+  simp only [hp, holds, won, preStore, pastStore, wErr, knowsSet, obsErr, chanOf, knowsCh, crOf, isPanic, sentSt, isClosing, isGStore, esOf] at a_mutex1 a_mutex2 a_uniq a_past a_pre a_werr a_knows a_obs a_chan a_kch a_crA a_sent a_esA a_gst a_closing a_quiet2 a_nopanic
+  obtain ⟨h1, h2, h3, h4, h5, h6, h7, h8, h9, h10, h11, h12, h13, h14, h15, h16, h17, h18, h19, h20, h21, h22, h23, h24, h25⟩ := h
+  sig_step_tac
 
 theorem step_sLock (s : State) (t : Tid) (e : _) (h : Inv s) (hp : s.pc t = .sLock e) :
-    ∀ s', step s t = some s' → Inv s' := by
+    ∀ s', step s t = some s' → Inv s' := fun s' hs =>
+  Inv.ofParts (step_sLock_A s t e h hp s' hs) (step_sLock_B s t e h hp s' hs) (step_sLock_C s t e h hp s' hs)
+
+theorem step_sRead_A (s : State) (t : Tid) (e : _) (h : Inv s) (hp : s.pc t = .sRead e) :
+    ∀ s', step s t = some s' → InvA s' := by
+  have a_mutex1 := h.mutex1 t
+  have a_mutex2 := h.mutex2 t
+  have a_uniq := h.uniq t
+  have a_past := h.past t
+  have a_pre := h.pre t
+  have a_werr := h.werr t
+  have a_knows := h.knows t
+  have a_obs := h.obs t
+  have a_chan := h.chan t
+  have a_kch := h.kch t
+  have a_crA := h.crA t
+  have a_sent := h.sent t
+  have a_esA := h.esA t
+  have a_gst := h.gst t
+  have a_closing := h.closing t
+  have a_quiet2 := h.quiet2 t
+  have a_nopanic := h.nopanic t
+  simp only [hp, holds, won, preStore, pastStore, wErr, knowsSet, obsErr, chanOf, knowsCh, crOf, isPanic, sentSt, isClosing, isGStore, esOf] at a_mutex1 a_mutex2 a_uniq a_past a_pre a_werr a_knows a_obs a_chan a_kch a_crA a_sent a_esA a_gst a_closing a_quiet2 a_nopanic
+  obtain ⟨h1, h2, h3, h4, h5, h6, h7, h8, h9, h10, h11, h12, h13, h14, h15, h16, h17, h18, h19, h20, h21, h22, h23, h24, h25⟩ := h
+  sig_step_tac
+
+theorem step_sRead_B (s : State) (t : Tid) (e : _) (h : Inv s) (hp : s.pc t = .sRead e) :
+    ∀ s', step s t = some s' → InvB s' := by
+  have a_mutex1 := h.mutex1 t
+  have a_mutex2 := h.mutex2 t
+  have a_uniq := h.uniq t
+  have a_past := h.past t
+  have a_pre := h.pre t
+  have a_werr := h.werr t
+  have a_knows := h.knows t
+  have a_obs := h.obs t
+  have a_chan := h.chan t
+  have a_kch := h.kch t
+  have a_crA := h.crA t
+  have a_sent := h.sent t
+  have a_esA := h.esA t
+  have a_gst := h.gst t
+  have a_closing := h.closing t
+  have a_quiet2 := h.quiet2 t
+  have a_nopanic := h.nopanic t
+  simp only [hp, holds, won, preStore, pastStore, wErr, knowsSet, obsErr, chanOf, knowsCh, crOf, isPanic, sentSt, isClosing, isGStore, esOf] at a_mutex1 a_mutex2 a_uniq a_past a_pre a_werr a_knows a_obs a_chan a_kch a_crA a_sent a_esA a_gst a_closing a_quiet2 a_nopanic
+  obtain ⟨h1, h2, h3, h4, h5, h6, h7, h8, h9, h10, h11, h12, h13, h14, h15, h16, h17, h18, h19, h20, h21, h22, h23, h24, h25⟩ := h
+  sig_step_tac
+
+theorem step_sRead_C (s : State) (t : Tid) (e : _) (h : Inv s) (hp : s.pc t = .sRead e) :
+    ∀ s', step s t = some s' → InvC s' := by
   have a_mutex1 := h.mutex1 t
   have a_mutex2 := h.mutex2 t
   have a_uniq := h.uniq t
@@ -148,7 +719,57 @@ theorem step_sLock (s : State) (t : Tid) (e : _) (h : Inv s) (hp : s.pc t = .sLo
   sig_step_tac
 
 theorem step_sRead (s : State) (t : Tid) (e : _) (h : Inv s) (hp : s.pc t = .sRead e) :
-    ∀ s', step s t = some s' → Inv s' := by
+    ∀ s', step s t = some s' → Inv s' := fun s' hs =>
+  Inv.ofParts (step_sRead_A s t e h hp s' hs) (step_sRead_B s t e h hp s' hs) (step_sRead_C s t e h hp s' hs)
+
+theorem step_sWriteErr_A (s : State) (t : Tid) (e : _) (cr : _) (h : Inv s) (hp : s.pc t = .sWriteErr e cr) :
+    ∀ s', step s t = some s' → InvA s' := by
+  have a_mutex1 := h.mutex1 t
+  have a_mutex2 := h.mutex2 t
+  have a_uniq := h.uniq t
+  have a_past := h.past t
+  have a_pre := h.pre t
+  have a_werr := h.werr t
+  have a_knows := h.knows t
+  have a_obs := h.obs t
+  have a_chan := h.chan t
+  have a_kch := h.kch t
+  have a_crA := h.crA t
+  have a_sent := h.sent t
+  have a_esA := h.esA t
+  have a_gst := h.gst t
+  have a_closing := h.closing t
+  have a_quiet2 := h.quiet2 t
+  have a_nopanic := h.nopanic t
+  simp only [hp, holds, won, preStore, pastStore, wErr, knowsSet, obsErr, chanOf, knowsCh, crOf, isPanic, sentSt, isClosing, isGStore, esOf] at a_mutex1 a_mutex2 a_uniq a_past a_pre a_werr a_knows a_obs a_chan a_kch a_crA a_sent a_esA a_gst a_closing a_quiet2 a_nopanic
+  obtain ⟨h1, h2, h3, h4, h5, h6, h7, h8, h9, h10, h11, h12, h13, h14, h15, h16, h17, h18, h19, h20, h21, h22, h23, h24, h25⟩ := h
+  sig_step_tac
+
+theorem step_sWriteErr_B (s : State) (t : Tid) (e : _) (cr : _) (h : Inv s) (hp : s.pc t = .sWriteErr e cr) :
+    ∀ s', step s t = some s' → InvB s' := by
+  have a_mutex1 := h.mutex1 t
+  have a_mutex2 := h.mutex2 t
+  have a_uniq := h.uniq t
+  have a_past := h.past t
+  have a_pre := h.pre t
+  have a_werr := h.werr t
+  have a_knows := h.knows t
+  have a_obs := h.obs t
+  have a_chan := h.chan t
+  have a_kch := h.kch t
+  have a_crA := h.crA t
+  have a_sent := h.sent t
+  have a_esA := h.esA t
+  have a_gst := h.gst t
+  have a_closing := h.closing t
+  have a_quiet2 := h.quiet2 t
+  have a_nopanic := h.nopanic t
+  simp only [hp, holds, won, preStore, pastStore, wErr, knowsSet, obsErr, chanOf, knowsCh, crOf, isPanic, sentSt, isClosing, isGStore, esOf] at a_mutex1 a_mutex2 a_uniq a_past a_pre a_werr a_knows a_obs a_chan a_kch a_crA a_sent a_esA a_gst a_closing a_quiet2 a_nopanic
+  obtain ⟨h1, h2, h3, h4, h5, h6, h7, h8, h9, h10, h11, h12, h13, h14, h15, h16, h17, h18, h19, h20, h21, h22, h23, h24, h25⟩ := h
+  sig_step_tac
+
+theorem step_sWriteErr_C (s : State) (t : Tid) (e : _) (cr : _) (h : Inv s) (hp : s.pc t = .sWriteErr e cr) :
+    ∀ s', step s t = some s' → InvC s' := by
   have a_mutex1 := h.mutex1 t
   have a_mutex2 := h.mutex2 t
   have a_uniq := h.uniq t
@@ -171,7 +792,57 @@ theorem step_sRead (s : State) (t : Tid) (e : _) (h : Inv s) (hp : s.pc t = .sRe
   sig_step_tac
 
 theorem step_sWriteErr (s : State) (t : Tid) (e : _) (cr : _) (h : Inv s) (hp : s.pc t = .sWriteErr e cr) :
-    ∀ s', step s t = some s' → Inv s' := by
+    ∀ s', step s t = some s' → Inv s' := fun s' hs =>
+  Inv.ofParts (step_sWriteErr_A s t e cr h hp s' hs) (step_sWriteErr_B s t e cr h hp s' hs) (step_sWriteErr_C s t e cr h hp s' hs)
+
+theorem step_sWriteCh_A (s : State) (t : Tid) (e : _) (cr : _) (h : Inv s) (hp : s.pc t = .sWriteCh e cr) :
+    ∀ s', step s t = some s' → InvA s' := by
+  have a_mutex1 := h.mutex1 t
+  have a_mutex2 := h.mutex2 t
+  have a_uniq := h.uniq t
+  have a_past := h.past t
+  have a_pre := h.pre t
+  have a_werr := h.werr t
+  have a_knows := h.knows t
+  have a_obs := h.obs t
+  have a_chan := h.chan t
+  have a_kch := h.kch t
+  have a_crA := h.crA t
+  have a_sent := h.sent t
+  have a_esA := h.esA t
+  have a_gst := h.gst t
+  have a_closing := h.closing t
+  have a_quiet2 := h.quiet2 t
+  have a_nopanic := h.nopanic t
+  simp only [hp, holds, won, preStore, pastStore, wErr, knowsSet, obsErr, chanOf, knowsCh, crOf, isPanic, sentSt, isClosing, isGStore, esOf] at a_mutex1 a_mutex2 a_uniq a_past a_pre a_werr a_knows a_obs a_chan a_kch a_crA a_sent a_esA a_gst a_closing a_quiet2 a_nopanic
+  obtain ⟨h1, h2, h3, h4, h5, h6, h7, h8, h9, h10, h11, h12, h13, h14, h15, h16, h17, h18, h19, h20, h21, h22, h23, h24, h25⟩ := h
+  sig_step_tac
+
+theorem step_sWriteCh_B (s : State) (t : Tid) (e : _) (cr : _) (h : Inv s) (hp : s.pc t = .sWriteCh e cr) :
+    ∀ s', step s t = some s' → InvB s' := by
+  have a_mutex1 := h.mutex1 t
+  have a_mutex2 := h.mutex2 t
+  have a_uniq := h.uniq t
+  have a_past := h.past t
+  have a_pre := h.pre t
+  have a_werr := h.werr t
+  have a_knows := h.knows t
+  have a_obs := h.obs t
+  have a_chan := h.chan t
+  have a_kch := h.kch t
+  have a_crA := h.crA t
+  have a_sent := h.sent t
+  have a_esA := h.esA t
+  have a_gst := h.gst t
+  have a_closing := h.closing t
+  have a_quiet2 := h.quiet2 t
+  have a_nopanic := h.nopanic t
+  simp only [hp, holds, won, preStore, pastStore, wErr, knowsSet, obsErr, chanOf, knowsCh, crOf, isPanic, sentSt, isClosing, isGStore, esOf] at a_mutex1 a_mutex2 a_uniq a_past a_pre a_werr a_knows a_obs a_chan a_kch a_crA a_sent a_esA a_gst a_closing a_quiet2 a_nopanic
+  obtain ⟨h1, h2, h3, h4, h5, h6, h7, h8, h9, h10, h11, h12, h13, h14, h15, h16, h17, h18, h19, h20, h21, h22, h23, h24, h25⟩ := h
+  sig_step_tac
+
+theorem step_sWriteCh_C (s : State) (t : Tid) (e : _) (cr : _) (h : Inv s) (hp : s.pc t = .sWriteCh e cr) :
+    ∀ s', step s t = some s' → InvC s' := by
   have a_mutex1 := h.mutex1 t
   have a_mutex2 := h.mutex2 t
   have a_uniq := h.uniq t
@@ -194,7 +865,57 @@ theorem step_sWriteErr (s : State) (t : Tid) (e : _) (cr : _) (h : Inv s) (hp : 
   sig_step_tac
 
 theorem step_sWriteCh (s : State) (t : Tid) (e : _) (cr : _) (h : Inv s) (hp : s.pc t = .sWriteCh e cr) :
-    ∀ s', step s t = some s' → Inv s' := by
+    ∀ s', step s t = some s' → Inv s' := fun s' hs =>
+  Inv.ofParts (step_sWriteCh_A s t e cr h hp s' hs) (step_sWriteCh_B s t e cr h hp s' hs) (step_sWriteCh_C s t e cr h hp s' hs)
+
+theorem step_sStore_A (s : State) (t : Tid) (e : _) (cr : _) (h : Inv s) (hp : s.pc t = .sStore e cr) :
+    ∀ s', step s t = some s' → InvA s' := by
+  have a_mutex1 := h.mutex1 t
+  have a_mutex2 := h.mutex2 t
+  have a_uniq := h.uniq t
+  have a_past := h.past t
+  have a_pre := h.pre t
+  have a_werr := h.werr t
+  have a_knows := h.knows t
+  have a_obs := h.obs t
+  have a_chan := h.chan t
+  have a_kch := h.kch t
+  have a_crA := h.crA t
+  have a_sent := h.sent t
+  have a_esA := h.esA t
+  have a_gst := h.gst t
+  have a_closing := h.closing t
+  have a_quiet2 := h.quiet2 t
+  have a_nopanic := h.nopanic t
+  simp only [hp, holds, won, preStore, pastStore, wErr, knowsSet, obsErr, chanOf, knowsCh, crOf, isPanic, sentSt, isClosing, isGStore, esOf] at a_mutex1 a_mutex2 a_uniq a_past a_pre a_werr a_knows a_obs a_chan a_kch a_crA a_sent a_esA a_gst a_closing a_quiet2 a_nopanic
+  obtain ⟨h1, h2, h3, h4, h5, h6, h7, h8, h9, h10, h11, h12, h13, h14, h15, h16, h17, h18, h19, h20, h21, h22, h23, h24, h25⟩ := h
+  sig_step_tac
+
+theorem step_sStore_B (s : State) (t : Tid) (e : _) (cr : _) (h : Inv s) (hp : s.pc t = .sStore e cr) :
+    ∀ s', step s t = some s' → InvB s' := by
+  have a_mutex1 := h.mutex1 t
+  have a_mutex2 := h.mutex2 t
+  have a_uniq := h.uniq t
+  have a_past := h.past t
+  have a_pre := h.pre t
+  have a_werr := h.werr t
+  have a_knows := h.knows t
+  have a_obs := h.obs t
+  have a_chan := h.chan t
+  have a_kch := h.kch t
+  have a_crA := h.crA t
+  have a_sent := h.sent t
+  have a_esA := h.esA t
+  have a_gst := h.gst t
+  have a_closing := h.closing t
+  have a_quiet2 := h.quiet2 t
+  have a_nopanic := h.nopanic t
+  simp only [hp, holds, won, preStore, pastStore, wErr, knowsSet, obsErr, chanOf, knowsCh, crOf, isPanic, sentSt, isClosing, isGStore, esOf] at a_mutex1 a_mutex2 a_uniq a_past a_pre a_werr a_knows a_obs a_chan a_kch a_crA a_sent a_esA a_gst a_closing a_quiet2 a_nopanic
+  obtain ⟨h1, h2, h3, h4, h5, h6, h7, h8, h9, h10, h11, h12, h13, h14, h15, h16, h17, h18, h19, h20, h21, h22, h23, h24, h25⟩ := h
+  sig_step_tac
+
+theorem step_sStore_C (s : State) (t : Tid) (e : _) (cr : _) (h : Inv s) (hp : s.pc t = .sStore e cr) :
+    ∀ s', step s t = some s' → InvC s' := by
   have a_mutex1 := h.mutex1 t
   have a_mutex2 := h.mutex2 t
   have a_uniq := h.uniq t
@@ -217,7 +938,111 @@ theorem step_sWriteCh (s : State) (t : Tid) (e : _) (cr : _) (h : Inv s) (hp : s
   sig_step_tac
 
 theorem step_sStore (s : State) (t : Tid) (e : _) (cr : _) (h : Inv s) (hp : s.pc t = .sStore e cr) :
-    ∀ s', step s t = some s' → Inv s' := by
+    ∀ s', step s t = some s' → Inv s' := fun s' hs =>
+  Inv.ofParts (step_sStore_A s t e cr h hp s' hs) (step_sStore_B s t e cr h hp s' hs) (step_sStore_C s t e cr h hp s' hs)
+
+theorem step_sClose_t_A (s : State) (t : Tid) (e : _) (h : Inv s) (hp : s.pc t = .sClose e true) :
+    ∀ s', step s t = some s' → InvA s' := by
+  have hopen := h.closing t (by simp [hp, isClosing])
+  cases hch : s.ch with
+  | none => simp [hch, chOpenFresh] at hopen
+  | sentinel => simp [hch, chOpenFresh] at hopen
+  | fresh c =>
+    have hc0 : s.closes c = 0 := by simpa [hch, chOpenFresh] using hopen
+    intro s' hs
+    simp only [step, hp, closeCh, hch, hc0, ↓reduceIte, Option.some.injEq] at hs
+    subst hs
+    have a_mutex1 := h.mutex1 t
+    have a_mutex2 := h.mutex2 t
+    have a_uniq := h.uniq t
+    have a_past := h.past t
+    have a_pre := h.pre t
+    have a_werr := h.werr t
+    have a_knows := h.knows t
+    have a_obs := h.obs t
+    have a_chan := h.chan t
+    have a_kch := h.kch t
+    have a_crA := h.crA t
+    have a_sent := h.sent t
+    have a_esA := h.esA t
+    have a_gst := h.gst t
+    have a_closing := h.closing t
+    have a_quiet2 := h.quiet2 t
+    have a_nopanic := h.nopanic t
+    simp only [hp, holds, won, preStore, pastStore, wErr, knowsSet, obsErr, chanOf, knowsCh, crOf, isPanic, sentSt, isClosing, isGStore, esOf] at a_mutex1 a_mutex2 a_uniq a_past a_pre a_werr a_knows a_obs a_chan a_kch a_crA a_sent a_esA a_gst a_closing a_quiet2 a_nopanic
+    obtain ⟨h1, h2, h3, h4, h5, h6, h7, h8, h9, h10, h11, h12, h13, h14, h15, h16, h17, h18, h19, h20, h21, h22, h23, h24, h25⟩ := h
+    sig_inv_case
+
+theorem step_sClose_t_B (s : State) (t : Tid) (e : _) (h : Inv s) (hp : s.pc t = .sClose e true) :
+    ∀ s', step s t = some s' → InvB s' := by
+  have hopen := h.closing t (by simp [hp, isClosing])
+  cases hch : s.ch with
+  | none => simp [hch, chOpenFresh] at hopen
+  | sentinel => simp [hch, chOpenFresh] at hopen
+  | fresh c =>
+    have hc0 : s.closes c = 0 := by simpa [hch, chOpenFresh] using hopen
+    intro s' hs
+    simp only [step, hp, closeCh, hch, hc0, ↓reduceIte, Option.some.injEq] at hs
+    subst hs
+    have a_mutex1 := h.mutex1 t
+    have a_mutex2 := h.mutex2 t
+    have a_uniq := h.uniq t
+    have a_past := h.past t
+    have a_pre := h.pre t
+    have a_werr := h.werr t
+    have a_knows := h.knows t
+    have a_obs := h.obs t
+    have a_chan := h.chan t
+    have a_kch := h.kch t
+    have a_crA := h.crA t
+    have a_sent := h.sent t
+    have a_esA := h.esA t
+    have a_gst := h.gst t
+    have a_closing := h.closing t
+    have a_quiet2 := h.quiet2 t
+    have a_nopanic := h.nopanic t
+    simp only [hp, holds, won, preStore, pastStore, wErr, knowsSet, obsErr, chanOf, knowsCh, crOf, isPanic, sentSt, isClosing, isGStore, esOf] at a_mutex1 a_mutex2 a_uniq a_past a_pre a_werr a_knows a_obs a_chan a_kch a_crA a_sent a_esA a_gst a_closing a_quiet2 a_nopanic
+    obtain ⟨h1, h2, h3, h4, h5, h6, h7, h8, h9, h10, h11, h12, h13, h14, h15, h16, h17, h18, h19, h20, h21, h22, h23, h24, h25⟩ := h
+    sig_inv_case
+
+theorem step_sClose_t_C (s : State) (t : Tid) (e : _) (h : Inv s) (hp : s.pc t = .sClose e true) :
+    ∀ s', step s t = some s' → InvC s' := by
+  have hopen := h.closing t (by simp [hp, isClosing])
+  cases hch : s.ch with
+  | none => simp [hch, chOpenFresh] at hopen
+  | sentinel => simp [hch, chOpenFresh] at hopen
+  | fresh c =>
+    have hc0 : s.closes c = 0 := by simpa [hch, chOpenFresh] using hopen
+    intro s' hs
+    simp only [step, hp, closeCh, hch, hc0, ↓reduceIte, Option.some.injEq] at hs
+    subst hs
+    have a_mutex1 := h.mutex1 t
+    have a_mutex2 := h.mutex2 t
+    have a_uniq := h.uniq t
+    have a_past := h.past t
+    have a_pre := h.pre t
+    have a_werr := h.werr t
+    have a_knows := h.knows t
+    have a_obs := h.obs t
+    have a_chan := h.chan t
+    have a_kch := h.kch t
+    have a_crA := h.crA t
+    have a_sent := h.sent t
+    have a_esA := h.esA t
+    have a_gst := h.gst t
+    have a_closing := h.closing t
+    have a_quiet2 := h.quiet2 t
+    have a_nopanic := h.nopanic t
+    simp only [hp, holds, won, preStore, pastStore, wErr, knowsSet, obsErr, chanOf, knowsCh, crOf, isPanic, sentSt, isClosing, isGStore, esOf] at a_mutex1 a_mutex2 a_uniq a_past a_pre a_werr a_knows a_obs a_chan a_kch a_crA a_sent a_esA a_gst a_closing a_quiet2 a_nopanic
+    obtain ⟨h1, h2, h3, h4, h5, h6, h7, h8, h9, h10, h11, h12, h13, h14, h15, h16, h17, h18, h19, h20, h21, h22, h23, h24, h25⟩ := h
+    sig_inv_case
+
+theorem step_sClose_t (s : State) (t : Tid) (e : _) (h : Inv s) (hp : s.pc t = .sClose e true) :
+    ∀ s', step s t = some s' → Inv s' := fun s' hs =>
+  Inv.ofParts (step_sClose_t_A s t e h hp s' hs) (step_sClose_t_B s t e h hp s' hs) (step_sClose_t_C s t e h hp s' hs)
+
+theorem step_sClose_f_A (s : State) (t : Tid) (e : _) (h : Inv s) (hp : s.pc t = .sClose e false) :
+    ∀ s', step s t = some s' → InvA s' := by
   have a_mutex1 := h.mutex1 t
   have a_mutex2 := h.mutex2 t
   have a_uniq := h.uniq t
@@ -239,9 +1064,8 @@ theorem step_sStore (s : State) (t : Tid) (e : _) (cr : _) (h : Inv s) (hp : s.p
   obtain ⟨h1, h2, h3, h4, h5, h6, h7, h8, h9, h10, h11, h12, h13, h14, h15, h16, h17, h18, h19, h20, h21, h22, h23, h24, h25⟩ := h
   sig_step_tac
 
-set_option maxHeartbeats 1000000 in
-theorem step_sClose (s : State) (t : Tid) (e : _) (cr : _) (h : Inv s) (hp : s.pc t = .sClose e cr) :
-    ∀ s', step s t = some s' → Inv s' := by
+theorem step_sClose_f_B (s : State) (t : Tid) (e : _) (h : Inv s) (hp : s.pc t = .sClose e false) :
+    ∀ s', step s t = some s' → InvB s' := by
   have a_mutex1 := h.mutex1 t
   have a_mutex2 := h.mutex2 t
   have a_uniq := h.uniq t
@@ -261,10 +1085,156 @@ theorem step_sClose (s : State) (t : Tid) (e : _) (cr : _) (h : Inv s) (hp : s.p
   have a_nopanic := h.nopanic t
   simp only [hp, holds, won, preStore, pastStore, wErr, knowsSet, obsErr, chanOf, knowsCh, crOf, isPanic, sentSt, isClosing, isGStore, esOf] at a_mutex1 a_mutex2 a_uniq a_past a_pre a_werr a_knows a_obs a_chan a_kch a_crA a_sent a_esA a_gst a_closing a_quiet2 a_nopanic
   obtain ⟨h1, h2, h3, h4, h5, h6, h7, h8, h9, h10, h11, h12, h13, h14, h15, h16, h17, h18, h19, h20, h21, h22, h23, h24, h25⟩ := h
-  cases cr <;> sig_step_tac
+  sig_step_tac
+
+theorem step_sClose_f_C (s : State) (t : Tid) (e : _) (h : Inv s) (hp : s.pc t = .sClose e false) :
+    ∀ s', step s t = some s' → InvC s' := by
+  have a_mutex1 := h.mutex1 t
+  have a_mutex2 := h.mutex2 t
+  have a_uniq := h.uniq t
+  have a_past := h.past t
+  have a_pre := h.pre t
+  have a_werr := h.werr t
+  have a_knows := h.knows t
+  have a_obs := h.obs t
+  have a_chan := h.chan t
+  have a_kch := h.kch t
+  have a_crA := h.crA t
+  have a_sent := h.sent t
+  have a_esA := h.esA t
+  have a_gst := h.gst t
+  have a_closing := h.closing t
+  have a_quiet2 := h.quiet2 t
+  have a_nopanic := h.nopanic t
+  simp only [hp, holds, won, preStore, pastStore, wErr, knowsSet, obsErr, chanOf, knowsCh, crOf, isPanic, sentSt, isClosing, isGStore, esOf] at a_mutex1 a_mutex2 a_uniq a_past a_pre a_werr a_knows a_obs a_chan a_kch a_crA a_sent a_esA a_gst a_closing a_quiet2 a_nopanic
+  obtain ⟨h1, h2, h3, h4, h5, h6, h7, h8, h9, h10, h11, h12, h13, h14, h15, h16, h17, h18, h19, h20, h21, h22, h23, h24, h25⟩ := h
+  sig_step_tac
+
+theorem step_sClose_f (s : State) (t : Tid) (e : _) (h : Inv s) (hp : s.pc t = .sClose e false) :
+    ∀ s', step s t = some s' → Inv s' := fun s' hs =>
+  Inv.ofParts (step_sClose_f_A s t e h hp s' hs) (step_sClose_f_B s t e h hp s' hs) (step_sClose_f_C s t e h hp s' hs)
+
+theorem step_sUnlock_A (s : State) (t : Tid) (e : _) (ok : _) (h : Inv s) (hp : s.pc t = .sUnlock e ok) :
+    ∀ s', step s t = some s' → InvA s' := by
+  have a_mutex1 := h.mutex1 t
+  have a_mutex2 := h.mutex2 t
+  have a_uniq := h.uniq t
+  have a_past := h.past t
+  have a_pre := h.pre t
+  have a_werr := h.werr t
+  have a_knows := h.knows t
+  have a_obs := h.obs t
+  have a_chan := h.chan t
+  have a_kch := h.kch t
+  have a_crA := h.crA t
+  have a_sent := h.sent t
+  have a_esA := h.esA t
+  have a_gst := h.gst t
+  have a_closing := h.closing t
+  have a_quiet2 := h.quiet2 t
+  have a_nopanic := h.nopanic t
+  simp only [hp, holds, won, preStore, pastStore, wErr, knowsSet, obsErr, chanOf, knowsCh, crOf, isPanic, sentSt, isClosing, isGStore, esOf] at a_mutex1 a_mutex2 a_uniq a_past a_pre a_werr a_knows a_obs a_chan a_kch a_crA a_sent a_esA a_gst a_closing a_quiet2 a_nopanic
+  obtain ⟨h1, h2, h3, h4, h5, h6, h7, h8, h9, h10, h11, h12, h13, h14, h15, h16, h17, h18, h19, h20, h21, h22, h23, h24, h25⟩ := h
+  sig_step_tac
+
+theorem step_sUnlock_B (s : State) (t : Tid) (e : _) (ok : _) (h : Inv s) (hp : s.pc t = .sUnlock e ok) :
+    ∀ s', step s t = some s' → InvB s' := by
+  have a_mutex1 := h.mutex1 t
+  have a_mutex2 := h.mutex2 t
+  have a_uniq := h.uniq t
+  have a_past := h.past t
+  have a_pre := h.pre t
+  have a_werr := h.werr t
+  have a_knows := h.knows t
+  have a_obs := h.obs t
+  have a_chan := h.chan t
+  have a_kch := h.kch t
+  have a_crA := h.crA t
+  have a_sent := h.sent t
+  have a_esA := h.esA t
+  have a_gst := h.gst t
+  have a_closing := h.closing t
+  have a_quiet2 := h.quiet2 t
+  have a_nopanic := h.nopanic t
+  simp only [hp, holds, won, preStore, pastStore, wErr, knowsSet, obsErr, chanOf, knowsCh, crOf, isPanic, sentSt, isClosing, isGStore, esOf] at a_mutex1 a_mutex2 a_uniq a_past a_pre a_werr a_knows a_obs a_chan a_kch a_crA a_sent a_esA a_gst a_closing a_quiet2 a_nopanic
+  obtain ⟨h1, h2, h3, h4, h5, h6, h7, h8, h9, h10, h11, h12, h13, h14, h15, h16, h17, h18, h19, h20, h21, h22, h23, h24, h25⟩ := h
+  sig_step_tac
+
+theorem step_sUnlock_C (s : State) (t : Tid) (e : _) (ok : _) (h : Inv s) (hp : s.pc t = .sUnlock e ok) :
+    ∀ s', step s t = some s' → InvC s' := by
+  have a_mutex1 := h.mutex1 t
+  have a_mutex2 := h.mutex2 t
+  have a_uniq := h.uniq t
+  have a_past := h.past t
+  have a_pre := h.pre t
+  have a_werr := h.werr t
+  have a_knows := h.knows t
+  have a_obs := h.obs t
+  have a_chan := h.chan t
+  have a_kch := h.kch t
+  have a_crA := h.crA t
+  have a_sent := h.sent t
+  have a_esA := h.esA t
+  have a_gst := h.gst t
+  have a_closing := h.closing t
+  have a_quiet2 := h.quiet2 t
+  have a_nopanic := h.nopanic t
+  simp only [hp, holds, won, preStore, pastStore, wErr, knowsSet, obsErr, chanOf, knowsCh, crOf, isPanic, sentSt, isClosing, isGStore, esOf] at a_mutex1 a_mutex2 a_uniq a_past a_pre a_werr a_knows a_obs a_chan a_kch a_crA a_sent a_esA a_gst a_closing a_quiet2 a_nopanic
+  obtain ⟨h1, h2, h3, h4, h5, h6, h7, h8, h9, h10, h11, h12, h13, h14, h15, h16, h17, h18, h19, h20, h21, h22, h23, h24, h25⟩ := h
+  sig_step_tac
 
 theorem step_sUnlock (s : State) (t : Tid) (e : _) (ok : _) (h : Inv s) (hp : s.pc t = .sUnlock e ok) :
-    ∀ s', step s t = some s' → Inv s' := by
+    ∀ s', step s t = some s' → Inv s' := fun s' hs =>
+  Inv.ofParts (step_sUnlock_A s t e ok h hp s' hs) (step_sUnlock_B s t e ok h hp s' hs) (step_sUnlock_C s t e ok h hp s' hs)
+
+theorem step_gFast_A (s : State) (t : Tid) (w : _) (h : Inv s) (hp : s.pc t = .gFast w) :
+    ∀ s', step s t = some s' → InvA s' := by
+  have a_mutex1 := h.mutex1 t
+  have a_mutex2 := h.mutex2 t
+  have a_uniq := h.uniq t
+  have a_past := h.past t
+  have a_pre := h.pre t
+  have a_werr := h.werr t
+  have a_knows := h.knows t
+  have a_obs := h.obs t
+  have a_chan := h.chan t
+  have a_kch := h.kch t
+  have a_crA := h.crA t
+  have a_sent := h.sent t
+  have a_esA := h.esA t
+  have a_gst := h.gst t
+  have a_closing := h.closing t
+  have a_quiet2 := h.quiet2 t
+  have a_nopanic := h.nopanic t
+  simp only [hp, holds, won, preStore, pastStore, wErr, knowsSet, obsErr, chanOf, knowsCh, crOf, isPanic, sentSt, isClosing, isGStore, esOf] at a_mutex1 a_mutex2 a_uniq a_past a_pre a_werr a_knows a_obs a_chan a_kch a_crA a_sent a_esA a_gst a_closing a_quiet2 a_nopanic
+  obtain ⟨h1, h2, h3, h4, h5, h6, h7, h8, h9, h10, h11, h12, h13, h14, h15, h16, h17, h18, h19, h20, h21, h22, h23, h24, h25⟩ := h
+  sig_step_tac
+
+theorem step_gFast_B (s : State) (t : Tid) (w : _) (h : Inv s) (hp : s.pc t = .gFast w) :
+    ∀ s', step s t = some s' → InvB s' := by
+  have a_mutex1 := h.mutex1 t
+  have a_mutex2 := h.mutex2 t
+  have a_uniq := h.uniq t
+  have a_past := h.past t
+  have a_pre := h.pre t
+  have a_werr := h.werr t
+  have a_knows := h.knows t
+  have a_obs := h.obs t
+  have a_chan := h.chan t
+  have a_kch := h.kch t
+  have a_crA := h.crA t
+  have a_sent := h.sent t
+  have a_esA := h.esA t
+  have a_gst := h.gst t
+  have a_closing := h.closing t
+  have a_quiet2 := h.quiet2 t
+  have a_nopanic := h.nopanic t
+  simp only [hp, holds, won, preStore, pastStore, wErr, knowsSet, obsErr, chanOf, knowsCh, crOf, isPanic, sentSt, isClosing, isGStore, esOf] at a_mutex1 a_mutex2 a_uniq a_past a_pre a_werr a_knows a_obs a_chan a_kch a_crA a_sent a_esA a_gst a_closing a_quiet2 a_nopanic
+  obtain ⟨h1, h2, h3, h4, h5, h6, h7, h8, h9, h10, h11, h12, h13, h14, h15, h16, h17, h18, h19, h20, h21, h22, h23, h24, h25⟩ := h
+  sig_step_tac
+
+theorem step_gFast_C (s : State) (t : Tid) (w : _) (h : Inv s) (hp : s.pc t = .gFast w) :
+    ∀ s', step s t = some s' → InvC s' := by
   have a_mutex1 := h.mutex1 t
   have a_mutex2 := h.mutex2 t
   have a_uniq := h.uniq t
@@ -287,7 +1257,57 @@ theorem step_sUnlock (s : State) (t : Tid) (e : _) (ok : _) (h : Inv s) (hp : s.
   sig_step_tac
 
 theorem step_gFast (s : State) (t : Tid) (w : _) (h : Inv s) (hp : s.pc t = .gFast w) :
-    ∀ s', step s t = some s' → Inv s' := by
+    ∀ s', step s t = some s' → Inv s' := fun s' hs =>
+  Inv.ofParts (step_gFast_A s t w h hp s' hs) (step_gFast_B s t w h hp s' hs) (step_gFast_C s t w h hp s' hs)
+
+theorem step_gLock_A (s : State) (t : Tid) (w : _) (h : Inv s) (hp : s.pc t = .gLock w) :
+    ∀ s', step s t = some s' → InvA s' := by
+  have a_mutex1 := h.mutex1 t
+  have a_mutex2 := h.mutex2 t
+  have a_uniq := h.uniq t
+  have a_past := h.past t
+  have a_pre := h.pre t
+  have a_werr := h.werr t
+  have a_knows := h.knows t
+  have a_obs := h.obs t
+  have a_chan := h.chan t
+  have a_kch := h.kch t
+  have a_crA := h.crA t
+  have a_sent := h.sent t
+  have a_esA := h.esA t
+  have a_gst := h.gst t
+  have a_closing := h.closing t
+  have a_quiet2 := h.quiet2 t
+  have a_nopanic := h.nopanic t
+  simp only [hp, holds, won, preStore, pastStore, wErr, knowsSet, obsErr, chanOf, knowsCh, crOf, isPanic, sentSt, isClosing, isGStore, esOf] at a_mutex1 a_mutex2 a_uniq a_past a_pre a_werr a_knows a_obs a_chan a_kch a_crA a_sent a_esA a_gst a_closing a_quiet2 a_nopanic
+  obtain ⟨h1, h2, h3, h4, h5, h6, h7, h8, h9, h10, h11, h12, h13, h14, h15, h16, h17, h18, h19, h20, h21, h22, h23, h24, h25⟩ := h
+  sig_step_tac
+
+theorem step_gLock_B (s : State) (t : Tid) (w : _) (h : Inv s) (hp : s.pc t = .gLock w) :
+    ∀ s', step s t = some s' → InvB s' := by
+  have a_mutex1 := h.mutex1 t
+  have a_mutex2 := h.mutex2 t
+  have a_uniq := h.uniq t
+  have a_past := h.past t
+  have a_pre := h.pre t
+  have a_werr := h.werr t
+  have a_knows := h.knows t
+  have a_obs := h.obs t
+  have a_chan := h.chan t
+  have a_kch := h.kch t
+  have a_crA := h.crA t
+  have a_sent := h.sent t
+  have a_esA := h.esA t
+  have a_gst := h.gst t
+  have a_closing := h.closing t
+  have a_quiet2 := h.quiet2 t
+  have a_nopanic := h.nopanic t
+  simp only [hp, holds, won, preStore, pastStore, wErr, knowsSet, obsErr, chanOf, knowsCh, crOf, isPanic, sentSt, isClosing, isGStore, esOf] at a_mutex1 a_mutex2 a_uniq a_past a_pre a_werr a_knows a_obs a_chan a_kch a_crA a_sent a_esA a_gst a_closing a_quiet2 a_nopanic
+  obtain ⟨h1, h2, h3, h4, h5, h6, h7, h8, h9, h10, h11, h12, h13, h14, h15, h16, h17, h18, h19, h20, h21, h22, h23, h24, h25⟩ := h
+  sig_step_tac
+
+theorem step_gLock_C (s : State) (t : Tid) (w : _) (h : Inv s) (hp : s.pc t = .gLock w) :
+    ∀ s', step s t = some s' → InvC s' := by
   have a_mutex1 := h.mutex1 t
   have a_mutex2 := h.mutex2 t
   have a_uniq := h.uniq t
@@ -310,7 +1330,57 @@ theorem step_gFast (s : State) (t : Tid) (w : _) (h : Inv s) (hp : s.pc t = .gFa
   sig_step_tac
 
 theorem step_gLock (s : State) (t : Tid) (w : _) (h : Inv s) (hp : s.pc t = .gLock w) :
-    ∀ s', step s t = some s' → Inv s' := by
+    ∀ s', step s t = some s' → Inv s' := fun s' hs =>
+  Inv.ofParts (step_gLock_A s t w h hp s' hs) (step_gLock_B s t w h hp s' hs) (step_gLock_C s t w h hp s' hs)
+
+theorem step_gRead_A (s : State) (t : Tid) (w : _) (h : Inv s) (hp : s.pc t = .gRead w) :
+    ∀ s', step s t = some s' → InvA s' := by
+  have a_mutex1 := h.mutex1 t
+  have a_mutex2 := h.mutex2 t
+  have a_uniq := h.uniq t
+  have a_past := h.past t
+  have a_pre := h.pre t
+  have a_werr := h.werr t
+  have a_knows := h.knows t
+  have a_obs := h.obs t
+  have a_chan := h.chan t
+  have a_kch := h.kch t
+  have a_crA := h.crA t
+  have a_sent := h.sent t
+  have a_esA := h.esA t
+  have a_gst := h.gst t
+  have a_closing := h.closing t
+  have a_quiet2 := h.quiet2 t
+  have a_nopanic := h.nopanic t
+  simp only [hp, holds, won, preStore, pastStore, wErr, knowsSet, obsErr, chanOf, knowsCh, crOf, isPanic, sentSt, isClosing, isGStore, esOf] at a_mutex1 a_mutex2 a_uniq a_past a_pre a_werr a_knows a_obs a_chan a_kch a_crA a_sent a_esA a_gst a_closing a_quiet2 a_nopanic
+  obtain ⟨h1, h2, h3, h4, h5, h6, h7, h8, h9, h10, h11, h12, h13, h14, h15, h16, h17, h18, h19, h20, h21, h22, h23, h24, h25⟩ := h
+  sig_step_tac
+
+theorem step_gRead_B (s : State) (t : Tid) (w : _) (h : Inv s) (hp : s.pc t = .gRead w) :
+    ∀ s', step s t = some s' → InvB s' := by
+  have a_mutex1 := h.mutex1 t
+  have a_mutex2 := h.mutex2 t
+  have a_uniq := h.uniq t
+  have a_past := h.past t
+  have a_pre := h.pre t
+  have a_werr := h.werr t
+  have a_knows := h.knows t
+  have a_obs := h.obs t
+  have a_chan := h.chan t
+  have a_kch := h.kch t
+  have a_crA := h.crA t
+  have a_sent := h.sent t
+  have a_esA := h.esA t
+  have a_gst := h.gst t
+  have a_closing := h.closing t
+  have a_quiet2 := h.quiet2 t
+  have a_nopanic := h.nopanic t
+  simp only [hp, holds, won, preStore, pastStore, wErr, knowsSet, obsErr, chanOf, knowsCh, crOf, isPanic, sentSt, isClosing, isGStore, esOf] at a_mutex1 a_mutex2 a_uniq a_past a_pre a_werr a_knows a_obs a_chan a_kch a_crA a_sent a_esA a_gst a_closing a_quiet2 a_nopanic
+  obtain ⟨h1, h2, h3, h4, h5, h6, h7, h8, h9, h10, h11, h12, h13, h14, h15, h16, h17, h18, h19, h20, h21, h22, h23, h24, h25⟩ := h
+  sig_step_tac
+
+theorem step_gRead_C (s : State) (t : Tid) (w : _) (h : Inv s) (hp : s.pc t = .gRead w) :
+    ∀ s', step s t = some s' → InvC s' := by
   have a_mutex1 := h.mutex1 t
   have a_mutex2 := h.mutex2 t
   have a_uniq := h.uniq t
@@ -333,7 +1403,57 @@ theorem step_gLock (s : State) (t : Tid) (w : _) (h : Inv s) (hp : s.pc t = .gLo
   sig_step_tac
 
 theorem step_gRead (s : State) (t : Tid) (w : _) (h : Inv s) (hp : s.pc t = .gRead w) :
-    ∀ s', step s t = some s' → Inv s' := by
+    ∀ s', step s t = some s' → Inv s' := fun s' hs =>
+  Inv.ofParts (step_gRead_A s t w h hp s' hs) (step_gRead_B s t w h hp s' hs) (step_gRead_C s t w h hp s' hs)
+
+theorem step_gMake_A (s : State) (t : Tid) (w : _) (es : _) (h : Inv s) (hp : s.pc t = .gMake w es) :
+    ∀ s', step s t = some s' → InvA s' := by
+  have a_mutex1 := h.mutex1 t
+  have a_mutex2 := h.mutex2 t
+  have a_uniq := h.uniq t
+  have a_past := h.past t
+  have a_pre := h.pre t
+  have a_werr := h.werr t
+  have a_knows := h.knows t
+  have a_obs := h.obs t
+  have a_chan := h.chan t
+  have a_kch := h.kch t
+  have a_crA := h.crA t
+  have a_sent := h.sent t
+  have a_esA := h.esA t
+  have a_gst := h.gst t
+  have a_closing := h.closing t
+  have a_quiet2 := h.quiet2 t
+  have a_nopanic := h.nopanic t
+  simp only [hp, holds, won, preStore, pastStore, wErr, knowsSet, obsErr, chanOf, knowsCh, crOf, isPanic, sentSt, isClosing, isGStore, esOf] at a_mutex1 a_mutex2 a_uniq a_past a_pre a_werr a_knows a_obs a_chan a_kch a_crA a_sent a_esA a_gst a_closing a_quiet2 a_nopanic
+  obtain ⟨h1, h2, h3, h4, h5, h6, h7, h8, h9, h10, h11, h12, h13, h14, h15, h16, h17, h18, h19, h20, h21, h22, h23, h24, h25⟩ := h
+  sig_step_tac
+
+theorem step_gMake_B (s : State) (t : Tid) (w : _) (es : _) (h : Inv s) (hp : s.pc t = .gMake w es) :
+    ∀ s', step s t = some s' → InvB s' := by
+  have a_mutex1 := h.mutex1 t
+  have a_mutex2 := h.mutex2 t
+  have a_uniq := h.uniq t
+  have a_past := h.past t
+  have a_pre := h.pre t
+  have a_werr := h.werr t
+  have a_knows := h.knows t
+  have a_obs := h.obs t
+  have a_chan := h.chan t
+  have a_kch := h.kch t
+  have a_crA := h.crA t
+  have a_sent := h.sent t
+  have a_esA := h.esA t
+  have a_gst := h.gst t
+  have a_closing := h.closing t
+  have a_quiet2 := h.quiet2 t
+  have a_nopanic := h.nopanic t
+  simp only [hp, holds, won, preStore, pastStore, wErr, knowsSet, obsErr, chanOf, knowsCh, crOf, isPanic, sentSt, isClosing, isGStore, esOf] at a_mutex1 a_mutex2 a_uniq a_past a_pre a_werr a_knows a_obs a_chan a_kch a_crA a_sent a_esA a_gst a_closing a_quiet2 a_nopanic
+  obtain ⟨h1, h2, h3, h4, h5, h6, h7, h8, h9, h10, h11, h12, h13, h14, h15, h16, h17, h18, h19, h20, h21, h22, h23, h24, h25⟩ := h
+  sig_step_tac
+
+theorem step_gMake_C (s : State) (t : Tid) (w : _) (es : _) (h : Inv s) (hp : s.pc t = .gMake w es) :
+    ∀ s', step s t = some s' → InvC s' := by
   have a_mutex1 := h.mutex1 t
   have a_mutex2 := h.mutex2 t
   have a_uniq := h.uniq t
@@ -356,7 +1476,57 @@ theorem step_gRead (s : State) (t : Tid) (w : _) (h : Inv s) (hp : s.pc t = .gRe
   sig_step_tac
 
 theorem step_gMake (s : State) (t : Tid) (w : _) (es : _) (h : Inv s) (hp : s.pc t = .gMake w es) :
-    ∀ s', step s t = some s' → Inv s' := by
+    ∀ s', step s t = some s' → Inv s' := fun s' hs =>
+  Inv.ofParts (step_gMake_A s t w es h hp s' hs) (step_gMake_B s t w es h hp s' hs) (step_gMake_C s t w es h hp s' hs)
+
+theorem step_gStore_A (s : State) (t : Tid) (w : _) (es : _) (h : Inv s) (hp : s.pc t = .gStore w es) :
+    ∀ s', step s t = some s' → InvA s' := by
+  have a_mutex1 := h.mutex1 t
+  have a_mutex2 := h.mutex2 t
+  have a_uniq := h.uniq t
+  have a_past := h.past t
+  have a_pre := h.pre t
+  have a_werr := h.werr t
+  have a_knows := h.knows t
+  have a_obs := h.obs t
+  have a_chan := h.chan t
+  have a_kch := h.kch t
+  have a_crA := h.crA t
+  have a_sent := h.sent t
+  have a_esA := h.esA t
+  have a_gst := h.gst t
+  have a_closing := h.closing t
+  have a_quiet2 := h.quiet2 t
+  have a_nopanic := h.nopanic t
+  simp only [hp, holds, won, preStore, pastStore, wErr, knowsSet, obsErr, chanOf, knowsCh, crOf, isPanic, sentSt, isClosing, isGStore, esOf] at a_mutex1 a_mutex2 a_uniq a_past a_pre a_werr a_knows a_obs a_chan a_kch a_crA a_sent a_esA a_gst a_closing a_quiet2 a_nopanic
+  obtain ⟨h1, h2, h3, h4, h5, h6, h7, h8, h9, h10, h11, h12, h13, h14, h15, h16, h17, h18, h19, h20, h21, h22, h23, h24, h25⟩ := h
+  sig_step_tac
+
+theorem step_gStore_B (s : State) (t : Tid) (w : _) (es : _) (h : Inv s) (hp : s.pc t = .gStore w es) :
+    ∀ s', step s t = some s' → InvB s' := by
+  have a_mutex1 := h.mutex1 t
+  have a_mutex2 := h.mutex2 t
+  have a_uniq := h.uniq t
+  have a_past := h.past t
+  have a_pre := h.pre t
+  have a_werr := h.werr t
+  have a_knows := h.knows t
+  have a_obs := h.obs t
+  have a_chan := h.chan t
+  have a_kch := h.kch t
+  have a_crA := h.crA t
+  have a_sent := h.sent t
+  have a_esA := h.esA t
+  have a_gst := h.gst t
+  have a_closing := h.closing t
+  have a_quiet2 := h.quiet2 t
+  have a_nopanic := h.nopanic t
+  simp only [hp, holds, won, preStore, pastStore, wErr, knowsSet, obsErr, chanOf, knowsCh, crOf, isPanic, sentSt, isClosing, isGStore, esOf] at a_mutex1 a_mutex2 a_uniq a_past a_pre a_werr a_knows a_obs a_chan a_kch a_crA a_sent a_esA a_gst a_closing a_quiet2 a_nopanic
+  obtain ⟨h1, h2, h3, h4, h5, h6, h7, h8, h9, h10, h11, h12, h13, h14, h15, h16, h17, h18, h19, h20, h21, h22, h23, h24, h25⟩ := h
+  sig_step_tac
+
+theorem step_gStore_C (s : State) (t : Tid) (w : _) (es : _) (h : Inv s) (hp : s.pc t = .gStore w es) :
+    ∀ s', step s t = some s' → InvC s' := by
   have a_mutex1 := h.mutex1 t
   have a_mutex2 := h.mutex2 t
   have a_uniq := h.uniq t
@@ -379,7 +1549,57 @@ theorem step_gMake (s : State) (t : Tid) (w : _) (es : _) (h : Inv s) (hp : s.pc
   sig_step_tac
 
 theorem step_gStore (s : State) (t : Tid) (w : _) (es : _) (h : Inv s) (hp : s.pc t = .gStore w es) :
-    ∀ s', step s t = some s' → Inv s' := by
+    ∀ s', step s t = some s' → Inv s' := fun s' hs =>
+  Inv.ofParts (step_gStore_A s t w es h hp s' hs) (step_gStore_B s t w es h hp s' hs) (step_gStore_C s t w es h hp s' hs)
+
+theorem step_gUnlock_A (s : State) (t : Tid) (w : _) (h : Inv s) (hp : s.pc t = .gUnlock w) :
+    ∀ s', step s t = some s' → InvA s' := by
+  have a_mutex1 := h.mutex1 t
+  have a_mutex2 := h.mutex2 t
+  have a_uniq := h.uniq t
+  have a_past := h.past t
+  have a_pre := h.pre t
+  have a_werr := h.werr t
+  have a_knows := h.knows t
+  have a_obs := h.obs t
+  have a_chan := h.chan t
+  have a_kch := h.kch t
+  have a_crA := h.crA t
+  have a_sent := h.sent t
+  have a_esA := h.esA t
+  have a_gst := h.gst t
+  have a_closing := h.closing t
+  have a_quiet2 := h.quiet2 t
+  have a_nopanic := h.nopanic t
+  simp only [hp, holds, won, preStore, pastStore, wErr, knowsSet, obsErr, chanOf, knowsCh, crOf, isPanic, sentSt, isClosing, isGStore, esOf] at a_mutex1 a_mutex2 a_uniq a_past a_pre a_werr a_knows a_obs a_chan a_kch a_crA a_sent a_esA a_gst a_closing a_quiet2 a_nopanic
+  obtain ⟨h1, h2, h3, h4, h5, h6, h7, h8, h9, h10, h11, h12, h13, h14, h15, h16, h17, h18, h19, h20, h21, h22, h23, h24, h25⟩ := h
+  sig_step_tac
+
+theorem step_gUnlock_B (s : State) (t : Tid) (w : _) (h : Inv s) (hp : s.pc t = .gUnlock w) :
+    ∀ s', step s t = some s' → InvB s' := by
+  have a_mutex1 := h.mutex1 t
+  have a_mutex2 := h.mutex2 t
+  have a_uniq := h.uniq t
+  have a_past := h.past t
+  have a_pre := h.pre t
+  have a_werr := h.werr t
+  have a_knows := h.knows t
+  have a_obs := h.obs t
+  have a_chan := h.chan t
+  have a_kch := h.kch t
+  have a_crA := h.crA t
+  have a_sent := h.sent t
+  have a_esA := h.esA t
+  have a_gst := h.gst t
+  have a_closing := h.closing t
+  have a_quiet2 := h.quiet2 t
+  have a_nopanic := h.nopanic t
+  simp only [hp, holds, won, preStore, pastStore, wErr, knowsSet, obsErr, chanOf, knowsCh, crOf, isPanic, sentSt, isClosing, isGStore, esOf] at a_mutex1 a_mutex2 a_uniq a_past a_pre a_werr a_knows a_obs a_chan a_kch a_crA a_sent a_esA a_gst a_closing a_quiet2 a_nopanic
+  obtain ⟨h1, h2, h3, h4, h5, h6, h7, h8, h9, h10, h11, h12, h13, h14, h15, h16, h17, h18, h19, h20, h21, h22, h23, h24, h25⟩ := h
+  sig_step_tac
+
+theorem step_gUnlock_C (s : State) (t : Tid) (w : _) (h : Inv s) (hp : s.pc t = .gUnlock w) :
+    ∀ s', step s t = some s' → InvC s' := by
   have a_mutex1 := h.mutex1 t
   have a_mutex2 := h.mutex2 t
   have a_uniq := h.uniq t
@@ -402,7 +1622,57 @@ theorem step_gStore (s : State) (t : Tid) (w : _) (es : _) (h : Inv s) (hp : s.p
   sig_step_tac
 
 theorem step_gUnlock (s : State) (t : Tid) (w : _) (h : Inv s) (hp : s.pc t = .gUnlock w) :
-    ∀ s', step s t = some s' → Inv s' := by
+    ∀ s', step s t = some s' → Inv s' := fun s' hs =>
+  Inv.ofParts (step_gUnlock_A s t w h hp s' hs) (step_gUnlock_B s t w h hp s' hs) (step_gUnlock_C s t w h hp s' hs)
+
+theorem step_gSlowRead_A (s : State) (t : Tid) (w : _) (h : Inv s) (hp : s.pc t = .gSlowRead w) :
+    ∀ s', step s t = some s' → InvA s' := by
+  have a_mutex1 := h.mutex1 t
+  have a_mutex2 := h.mutex2 t
+  have a_uniq := h.uniq t
+  have a_past := h.past t
+  have a_pre := h.pre t
+  have a_werr := h.werr t
+  have a_knows := h.knows t
+  have a_obs := h.obs t
+  have a_chan := h.chan t
+  have a_kch := h.kch t
+  have a_crA := h.crA t
+  have a_sent := h.sent t
+  have a_esA := h.esA t
+  have a_gst := h.gst t
+  have a_closing := h.closing t
+  have a_quiet2 := h.quiet2 t
+  have a_nopanic := h.nopanic t
+  simp only [hp, holds, won, preStore, pastStore, wErr, knowsSet, obsErr, chanOf, knowsCh, crOf, isPanic, sentSt, isClosing, isGStore, esOf] at a_mutex1 a_mutex2 a_uniq a_past a_pre a_werr a_knows a_obs a_chan a_kch a_crA a_sent a_esA a_gst a_closing a_quiet2 a_nopanic
+  obtain ⟨h1, h2, h3, h4, h5, h6, h7, h8, h9, h10, h11, h12, h13, h14, h15, h16, h17, h18, h19, h20, h21, h22, h23, h24, h25⟩ := h
+  sig_step_tac
+
+theorem step_gSlowRead_B (s : State) (t : Tid) (w : _) (h : Inv s) (hp : s.pc t = .gSlowRead w) :
+    ∀ s', step s t = some s' → InvB s' := by
+  have a_mutex1 := h.mutex1 t
+  have a_mutex2 := h.mutex2 t
+  have a_uniq := h.uniq t
+  have a_past := h.past t
+  have a_pre := h.pre t
+  have a_werr := h.werr t
+  have a_knows := h.knows t
+  have a_obs := h.obs t
+  have a_chan := h.chan t
+  have a_kch := h.kch t
+  have a_crA := h.crA t
+  have a_sent := h.sent t
+  have a_esA := h.esA t
+  have a_gst := h.gst t
+  have a_closing := h.closing t
+  have a_quiet2 := h.quiet2 t
+  have a_nopanic := h.nopanic t
+  simp only [hp, holds, won, preStore, pastStore, wErr, knowsSet, obsErr, chanOf, knowsCh, crOf, isPanic, sentSt, isClosing, isGStore, esOf] at a_mutex1 a_mutex2 a_uniq a_past a_pre a_werr a_knows a_obs a_chan a_kch a_crA a_sent a_esA a_gst a_closing a_quiet2 a_nopanic
+  obtain ⟨h1, h2, h3, h4, h5, h6, h7, h8, h9, h10, h11, h12, h13, h14, h15, h16, h17, h18, h19, h20, h21, h22, h23, h24, h25⟩ := h
+  sig_step_tac
+
+theorem step_gSlowRead_C (s : State) (t : Tid) (w : _) (h : Inv s) (hp : s.pc t = .gSlowRead w) :
+    ∀ s', step s t = some s' → InvC s' := by
   have a_mutex1 := h.mutex1 t
   have a_mutex2 := h.mutex2 t
   have a_uniq := h.uniq t
@@ -425,7 +1695,57 @@ theorem step_gUnlock (s : State) (t : Tid) (w : _) (h : Inv s) (hp : s.pc t = .g
   sig_step_tac
 
 theorem step_gSlowRead (s : State) (t : Tid) (w : _) (h : Inv s) (hp : s.pc t = .gSlowRead w) :
-    ∀ s', step s t = some s' → Inv s' := by
+    ∀ s', step s t = some s' → Inv s' := fun s' hs =>
+  Inv.ofParts (step_gSlowRead_A s t w h hp s' hs) (step_gSlowRead_B s t w h hp s' hs) (step_gSlowRead_C s t w h hp s' hs)
+
+theorem step_wRecv_A (s : State) (t : Tid) (c : _) (h : Inv s) (hp : s.pc t = .wRecv c) :
+    ∀ s', step s t = some s' → InvA s' := by
+  have a_mutex1 := h.mutex1 t
+  have a_mutex2 := h.mutex2 t
+  have a_uniq := h.uniq t
+  have a_past := h.past t
+  have a_pre := h.pre t
+  have a_werr := h.werr t
+  have a_knows := h.knows t
+  have a_obs := h.obs t
+  have a_chan := h.chan t
+  have a_kch := h.kch t
+  have a_crA := h.crA t
+  have a_sent := h.sent t
+  have a_esA := h.esA t
+  have a_gst := h.gst t
+  have a_closing := h.closing t
+  have a_quiet2 := h.quiet2 t
+  have a_nopanic := h.nopanic t
+  simp only [hp, holds, won, preStore, pastStore, wErr, knowsSet, obsErr, chanOf, knowsCh, crOf, isPanic, sentSt, isClosing, isGStore, esOf] at a_mutex1 a_mutex2 a_uniq a_past a_pre a_werr a_knows a_obs a_chan a_kch a_crA a_sent a_esA a_gst a_closing a_quiet2 a_nopanic
+  obtain ⟨h1, h2, h3, h4, h5, h6, h7, h8, h9, h10, h11, h12, h13, h14, h15, h16, h17, h18, h19, h20, h21, h22, h23, h24, h25⟩ := h
+  sig_step_tac
+
+theorem step_wRecv_B (s : State) (t : Tid) (c : _) (h : Inv s) (hp : s.pc t = .wRecv c) :
+    ∀ s', step s t = some s' → InvB s' := by
+  have a_mutex1 := h.mutex1 t
+  have a_mutex2 := h.mutex2 t
+  have a_uniq := h.uniq t
+  have a_past := h.past t
+  have a_pre := h.pre t
+  have a_werr := h.werr t
+  have a_knows := h.knows t
+  have a_obs := h.obs t
+  have a_chan := h.chan t
+  have a_kch := h.kch t
+  have a_crA := h.crA t
+  have a_sent := h.sent t
+  have a_esA := h.esA t
+  have a_gst := h.gst t
+  have a_closing := h.closing t
+  have a_quiet2 := h.quiet2 t
+  have a_nopanic := h.nopanic t
+  simp only [hp, holds, won, preStore, pastStore, wErr, knowsSet, obsErr, chanOf, knowsCh, crOf, isPanic, sentSt, isClosing, isGStore, esOf] at a_mutex1 a_mutex2 a_uniq a_past a_pre a_werr a_knows a_obs a_chan a_kch a_crA a_sent a_esA a_gst a_closing a_quiet2 a_nopanic
+  obtain ⟨h1, h2, h3, h4, h5, h6, h7, h8, h9, h10, h11, h12, h13, h14, h15, h16, h17, h18, h19, h20, h21, h22, h23, h24, h25⟩ := h
+  sig_step_tac
+
+theorem step_wRecv_C (s : State) (t : Tid) (c : _) (h : Inv s) (hp : s.pc t = .wRecv c) :
+    ∀ s', step s t = some s' → InvC s' := by
   have a_mutex1 := h.mutex1 t
   have a_mutex2 := h.mutex2 t
   have a_uniq := h.uniq t
@@ -448,7 +1768,11 @@ theorem step_gSlowRead (s : State) (t : Tid) (w : _) (h : Inv s) (hp : s.pc t = 
   sig_step_tac
 
 theorem step_wRecv (s : State) (t : Tid) (c : _) (h : Inv s) (hp : s.pc t = .wRecv c) :
-    ∀ s', step s t = some s' → Inv s' := by
+    ∀ s', step s t = some s' → Inv s' := fun s' hs =>
+  Inv.ofParts (step_wRecv_A s t c h hp s' hs) (step_wRecv_B s t c h hp s' hs) (step_wRecv_C s t c h hp s' hs)
+
+theorem step_getRead_A (s : State) (t : Tid)  (h : Inv s) (hp : s.pc t = .getRead) :
+    ∀ s', step s t = some s' → InvA s' := by
   have a_mutex1 := h.mutex1 t
   have a_mutex2 := h.mutex2 t
   have a_uniq := h.uniq t
@@ -470,8 +1794,8 @@ theorem step_wRecv (s : State) (t : Tid) (c : _) (h : Inv s) (hp : s.pc t = .wRe
   obtain ⟨h1, h2, h3, h4, h5, h6, h7, h8, h9, h10, h11, h12, h13, h14, h15, h16, h17, h18, h19, h20, h21, h22, h23, h24, h25⟩ := h
   sig_step_tac
 
-theorem step_getRead (s : State) (t : Tid)  (h : Inv s) (hp : s.pc t = .getRead ) :
-    ∀ s', step s t = some s' → Inv s' := by
+theorem step_getRead_B (s : State) (t : Tid)  (h : Inv s) (hp : s.pc t = .getRead) :
+    ∀ s', step s t = some s' → InvB s' := by
   have a_mutex1 := h.mutex1 t
   have a_mutex2 := h.mutex2 t
   have a_uniq := h.uniq t
@@ -493,8 +1817,8 @@ theorem step_getRead (s : State) (t : Tid)  (h : Inv s) (hp : s.pc t = .getRead 
   obtain ⟨h1, h2, h3, h4, h5, h6, h7, h8, h9, h10, h11, h12, h13, h14, h15, h16, h17, h18, h19, h20, h21, h22, h23, h24, h25⟩ := h
   sig_step_tac
 
-theorem step_errRead (s : State) (t : Tid)  (h : Inv s) (hp : s.pc t = .errRead ) :
-    ∀ s', step s t = some s' → Inv s' := by
+theorem step_getRead_C (s : State) (t : Tid)  (h : Inv s) (hp : s.pc t = .getRead) :
+    ∀ s', step s t = some s' → InvC s' := by
   have a_mutex1 := h.mutex1 t
   have a_mutex2 := h.mutex2 t
   have a_uniq := h.uniq t
@@ -515,24 +1839,111 @@ theorem step_errRead (s : State) (t : Tid)  (h : Inv s) (hp : s.pc t = .errRead 
   simp only [hp, holds, won, preStore, pastStore, wErr, knowsSet, obsErr, chanOf, knowsCh, crOf, isPanic, sentSt, isClosing, isGStore, esOf] at a_mutex1 a_mutex2 a_uniq a_past a_pre a_werr a_knows a_obs a_chan a_kch a_crA a_sent a_esA a_gst a_closing a_quiet2 a_nopanic
   obtain ⟨h1, h2, h3, h4, h5, h6, h7, h8, h9, h10, h11, h12, h13, h14, h15, h16, h17, h18, h19, h20, h21, h22, h23, h24, h25⟩ := h
   sig_step_tac
+
+theorem step_getRead (s : State) (t : Tid)  (h : Inv s) (hp : s.pc t = .getRead) :
+    ∀ s', step s t = some s' → Inv s' := fun s' hs =>
+  Inv.ofParts (step_getRead_A s t  h hp s' hs) (step_getRead_B s t  h hp s' hs) (step_getRead_C s t  h hp s' hs)
+
+theorem step_errRead_A (s : State) (t : Tid)  (h : Inv s) (hp : s.pc t = .errRead) :
+    ∀ s', step s t = some s' → InvA s' := by
+  have a_mutex1 := h.mutex1 t
+  have a_mutex2 := h.mutex2 t
+  have a_uniq := h.uniq t
+  have a_past := h.past t
+  have a_pre := h.pre t
+  have a_werr := h.werr t
+  have a_knows := h.knows t
+  have a_obs := h.obs t
+  have a_chan := h.chan t
+  have a_kch := h.kch t
+  have a_crA := h.crA t
+  have a_sent := h.sent t
+  have a_esA := h.esA t
+  have a_gst := h.gst t
+  have a_closing := h.closing t
+  have a_quiet2 := h.quiet2 t
+  have a_nopanic := h.nopanic t
+  simp only [hp, holds, won, preStore, pastStore, wErr, knowsSet, obsErr, chanOf, knowsCh, crOf, isPanic, sentSt, isClosing, isGStore, esOf] at a_mutex1 a_mutex2 a_uniq a_past a_pre a_werr a_knows a_obs a_chan a_kch a_crA a_sent a_esA a_gst a_closing a_quiet2 a_nopanic
+  obtain ⟨h1, h2, h3, h4, h5, h6, h7, h8, h9, h10, h11, h12, h13, h14, h15, h16, h17, h18, h19, h20, h21, h22, h23, h24, h25⟩ := h
+  sig_step_tac
+
+theorem step_errRead_B (s : State) (t : Tid)  (h : Inv s) (hp : s.pc t = .errRead) :
+    ∀ s', step s t = some s' → InvB s' := by
+  have a_mutex1 := h.mutex1 t
+  have a_mutex2 := h.mutex2 t
+  have a_uniq := h.uniq t
+  have a_past := h.past t
+  have a_pre := h.pre t
+  have a_werr := h.werr t
+  have a_knows := h.knows t
+  have a_obs := h.obs t
+  have a_chan := h.chan t
+  have a_kch := h.kch t
+  have a_crA := h.crA t
+  have a_sent := h.sent t
+  have a_esA := h.esA t
+  have a_gst := h.gst t
+  have a_closing := h.closing t
+  have a_quiet2 := h.quiet2 t
+  have a_nopanic := h.nopanic t
+  simp only [hp, holds, won, preStore, pastStore, wErr, knowsSet, obsErr, chanOf, knowsCh, crOf, isPanic, sentSt, isClosing, isGStore, esOf] at a_mutex1 a_mutex2 a_uniq a_past a_pre a_werr a_knows a_obs a_chan a_kch a_crA a_sent a_esA a_gst a_closing a_quiet2 a_nopanic
+  obtain ⟨h1, h2, h3, h4, h5, h6, h7, h8, h9, h10, h11, h12, h13, h14, h15, h16, h17, h18, h19, h20, h21, h22, h23, h24, h25⟩ := h
+  sig_step_tac
+
+theorem step_errRead_C (s : State) (t : Tid)  (h : Inv s) (hp : s.pc t = .errRead) :
+    ∀ s', step s t = some s' → InvC s' := by
+  have a_mutex1 := h.mutex1 t
+  have a_mutex2 := h.mutex2 t
+  have a_uniq := h.uniq t
+  have a_past := h.past t
+  have a_pre := h.pre t
+  have a_werr := h.werr t
+  have a_knows := h.knows t
+  have a_obs := h.obs t
+  have a_chan := h.chan t
+  have a_kch := h.kch t
+  have a_crA := h.crA t
+  have a_sent := h.sent t
+  have a_esA := h.esA t
+  have a_gst := h.gst t
+  have a_closing := h.closing t
+  have a_quiet2 := h.quiet2 t
+  have a_nopanic := h.nopanic t
+  simp only [hp, holds, won, preStore, pastStore, wErr, knowsSet, obsErr, chanOf, knowsCh, crOf, isPanic, sentSt, isClosing, isGStore, esOf] at a_mutex1 a_mutex2 a_uniq a_past a_pre a_werr a_knows a_obs a_chan a_kch a_crA a_sent a_esA a_gst a_closing a_quiet2 a_nopanic
+  obtain ⟨h1, h2, h3, h4, h5, h6, h7, h8, h9, h10, h11, h12, h13, h14, h15, h16, h17, h18, h19, h20, h21, h22, h23, h24, h25⟩ := h
+  sig_step_tac
+
+theorem step_errRead (s : State) (t : Tid)  (h : Inv s) (hp : s.pc t = .errRead) :
+    ∀ s', step s t = some s' → Inv s' := fun s' hs =>
+  Inv.ofParts (step_errRead_A s t  h hp s' hs) (step_errRead_B s t  h hp s' hs) (step_errRead_C s t  h hp s' hs)
 
 theorem inv_step (s s' : State) (t : Tid) (h : Inv s) (hs : step s t = some s') : Inv s' := by
   cases hp : s.pc t with
-  | idle  => simp [step, hp] at hs
-  | start c => exact step_start s t c h hp s' hs
+  | idle => simp [step, hp] at hs
   | panicked c => simp [step, hp] at hs
   | doneSet e ok => simp [step, hp] at hs
   | doneSignal c => simp [step, hp] at hs
-  | doneWait  => simp [step, hp] at hs
+  | doneWait => simp [step, hp] at hs
   | doneGet x ok => simp [step, hp] at hs
   | doneErr x => simp [step, hp] at hs
   | doneIsSet b => simp [step, hp] at hs
+  | start c =>
+    cases c with
+    | set e => exact step_start_set s t e h hp s' hs
+    | signal => exact step_start_signal s t h hp s' hs
+    | wait => exact step_start_wait s t h hp s' hs
+    | get => exact step_start_get s t h hp s' hs
+    | err => exact step_start_err s t h hp s' hs
+    | isSet => exact step_start_isSet s t h hp s' hs
+  | sClose e cr =>
+    cases cr with
+    | true => exact step_sClose_t s t e h hp s' hs
+    | false => exact step_sClose_f s t e h hp s' hs
   | sLock e => exact step_sLock s t e h hp s' hs
   | sRead e => exact step_sRead s t e h hp s' hs
   | sWriteErr e cr => exact step_sWriteErr s t e cr h hp s' hs
   | sWriteCh e cr => exact step_sWriteCh s t e cr h hp s' hs
   | sStore e cr => exact step_sStore s t e cr h hp s' hs
-  | sClose e cr => exact step_sClose s t e cr h hp s' hs
   | sUnlock e ok => exact step_sUnlock s t e ok h hp s' hs
   | gFast w => exact step_gFast s t w h hp s' hs
   | gLock w => exact step_gLock s t w h hp s' hs
@@ -542,8 +1953,8 @@ theorem inv_step (s s' : State) (t : Tid) (h : Inv s) (hs : step s t = some s') 
   | gUnlock w => exact step_gUnlock s t w h hp s' hs
   | gSlowRead w => exact step_gSlowRead s t w h hp s' hs
   | wRecv c => exact step_wRecv s t c h hp s' hs
-  | getRead  => exact step_getRead s t  h hp s' hs
-  | errRead  => exact step_errRead s t  h hp s' hs
+  | getRead => exact step_getRead s t  h hp s' hs
+  | errRead => exact step_errRead s t  h hp s' hs
 
 theorem reach_inv (s : State) (h : Reach s) : Inv s := by
   induction h with
